@@ -850,6 +850,75 @@ ad_next:
   return;
 }
 
+
+\* Trees::change_at: try_update whose closure (Tree::change) calls fetch_free() = stats_at(tree, TREE_ORDER)
+\* (TH entry loads) when an Online change is applicable; rv = [ok]
+procedure change_at(cg_t, cg_mclass, cg_mfree, cg_cclass, cg_cop)
+variables cg_prev = TreeW(0, FALSE, 0), cg_done = FALSE, cg_fetched = 0, cg_h = 0, cg_v = 0, cg_next = <<>>, cg_ok = FALSE,
+          cg_seen = TreeW(0, FALSE, 0);
+{
+cg_load:
+  Load(Tree(cg_t), cg_prev);
+  cg_done := FALSE;
+cg_loop:
+  while (~cg_done) {
+    cg_fetched := 0;
+    if (~cg_prev.res /\ (cg_mclass = -1 \/ cg_mclass = cg_prev.class) /\ cg_prev.free >= cg_mfree
+        /\ cg_cop = 1 /\ cg_prev.free = 0) {
+      cg_h := 0;
+cg_fetch:
+      while (cg_h < TH) {
+        Load(Entry(cg_t * TH + cg_h), cg_v);
+        cg_fetched := cg_fetched + (IF cg_v = HUGE THEN 0 ELSE cg_v);
+        cg_h := cg_h + 1;
+      }
+    };
+cg_cas:
+    cg_next := F("chg", [mclass |-> cg_mclass, mfree |-> cg_mfree, cclass |-> cg_cclass, cop |-> cg_cop, fetched |-> cg_fetched], cg_prev);
+    if (~IsSome(cg_next)) {
+      rv[self] := [ok |-> FALSE, err |-> "mem"];
+      cg_done := TRUE;
+    } else {
+      Cas(Tree(cg_t), cg_prev, Val(cg_next), cg_ok, cg_seen);
+      if (cg_ok) {
+        rv[self] := [ok |-> TRUE, err |-> ""];
+        cg_done := TRUE;
+      } else {
+        cg_prev := cg_seen;
+      }
+    }
+  };
+  return;
+}
+
+\* LLFree::change_tree; rv = [ok, err]
+procedure api_change(ac_id, ac_mclass, ac_mfree, ac_cclass, ac_cop)
+variables ac_i = 0, ac_done = FALSE;
+{
+ac_begin:
+  if (ac_id # -1) {
+    if (ac_id >= NT) {
+      rv[self] := [ok |-> FALSE, err |-> "arg"];
+      return;
+    } else {
+      call change_at(ac_id, ac_mclass, ac_mfree, ac_cclass, ac_cop);
+ac_id_r:
+      return;
+    }
+  } else {
+    ac_i := 0;
+    ac_done := FALSE;
+ac_search:
+    while (ac_i < NT /\ ~ac_done) {
+      call change_at(SearchIdx(0, ac_i), ac_mclass, ac_mfree, ac_cclass, ac_cop);
+ac_search_r:
+      if (rv[self].ok) { ac_done := TRUE; } else { ac_i := ac_i + 1; }
+    };
+    if (~ac_done) { rv[self] := [ok |-> FALSE, err |-> "mem"]; };
+    return;
+  }
+}
+
 \* ------------------------------------------------------------------ threads
 \* Prog[t][i] = [op |-> "get", order, class, slot, target] | [op |-> "put", idx, sub, part, class, slot]
 \*            | [op |-> "putraw", frame, order, class, slot] | [op |-> "drain"]
@@ -888,6 +957,12 @@ t_putraw_r:
       results[self] := Append(results[self], [op |-> "put", ok |-> rv[self].ok, frame |-> cur.frame,
                               class |-> -1, err |-> rv[self].err]);
       inflight[self] := <<>>;
+    } else if (cur.op = "change") {
+      inflight[self] := cur;
+      call api_change(cur.id, cur.mclass, cur.mfree, cur.cclass, cur.cop);
+t_change_r:
+      results[self] := Append(results[self], [op |-> "change", ok |-> rv[self].ok, frame |-> -1, class |-> -1, err |-> rv[self].err]);
+      inflight[self] := <<>>;
     } else if (cur.op = "drain") {
       inflight[self] := cur;
       call api_drain();
@@ -900,7 +975,7 @@ t_next:
   };
 }
 } *)
-\* BEGIN TRANSLATION (chksum(pcal) = "5b734c21" /\ chksum(tla) = "40517fae")
+\* BEGIN TRANSLATION (chksum(pcal) = "c9c9691f" /\ chksum(tla) = "59571a7c")
 CONSTANT defaultInitValue
 VARIABLES pc, mem, held, results, inflight, rv, panicked, lastop, stack
 
@@ -925,7 +1000,10 @@ VARIABLES dp_why, tu_loc, tu_fn, tu_arg, tu_prev, tu_next, tu_done, tu_ok,
           sl_jj, dl_class, dl_local, dl_order, dl_frame, dl_i, dl_tc, dl_j, 
           dl_found, dl_new, dl_old, dl_jj, dl_oldclass, ag_order, ag_class, 
           ag_local, ag_frame, ag_len, ag_start, ag_near, ag_done, ap_frame, 
-          ap_order, ap_class, ap_local, ad_c, ad_k, ad_old, pcx, cur, blk
+          ap_order, ap_class, ap_local, ad_c, ad_k, ad_old, cg_t, cg_mclass, 
+          cg_mfree, cg_cclass, cg_cop, cg_prev, cg_done, cg_fetched, cg_h, 
+          cg_v, cg_next, cg_ok, cg_seen, ac_id, ac_mclass, ac_mfree, 
+          ac_cclass, ac_cop, ac_i, ac_done, pcx, cur, blk
 
 vars == << pc, mem, held, results, inflight, rv, panicked, lastop, stack, 
            dp_why, tu_loc, tu_fn, tu_arg, tu_prev, tu_next, tu_done, tu_ok, 
@@ -946,7 +1024,10 @@ vars == << pc, mem, held, results, inflight, rv, panicked, lastop, stack,
            sl_jj, dl_class, dl_local, dl_order, dl_frame, dl_i, dl_tc, dl_j, 
            dl_found, dl_new, dl_old, dl_jj, dl_oldclass, ag_order, ag_class, 
            ag_local, ag_frame, ag_len, ag_start, ag_near, ag_done, ap_frame, 
-           ap_order, ap_class, ap_local, ad_c, ad_k, ad_old, pcx, cur, blk >>
+           ap_order, ap_class, ap_local, ad_c, ad_k, ad_old, cg_t, cg_mclass, 
+           cg_mfree, cg_cclass, cg_cop, cg_prev, cg_done, cg_fetched, cg_h, 
+           cg_v, cg_next, cg_ok, cg_seen, ac_id, ac_mclass, ac_mfree, 
+           ac_cclass, ac_cop, ac_i, ac_done, pcx, cur, blk >>
 
 ProcSet == (Threads)
 
@@ -1123,6 +1204,28 @@ Init == (* Global variables *)
         /\ ad_c = [ self \in ProcSet |-> 0]
         /\ ad_k = [ self \in ProcSet |-> 0]
         /\ ad_old = [ self \in ProcSet |-> SlotNone]
+        (* Procedure change_at *)
+        /\ cg_t = [ self \in ProcSet |-> defaultInitValue]
+        /\ cg_mclass = [ self \in ProcSet |-> defaultInitValue]
+        /\ cg_mfree = [ self \in ProcSet |-> defaultInitValue]
+        /\ cg_cclass = [ self \in ProcSet |-> defaultInitValue]
+        /\ cg_cop = [ self \in ProcSet |-> defaultInitValue]
+        /\ cg_prev = [ self \in ProcSet |-> TreeW(0, FALSE, 0)]
+        /\ cg_done = [ self \in ProcSet |-> FALSE]
+        /\ cg_fetched = [ self \in ProcSet |-> 0]
+        /\ cg_h = [ self \in ProcSet |-> 0]
+        /\ cg_v = [ self \in ProcSet |-> 0]
+        /\ cg_next = [ self \in ProcSet |-> <<>>]
+        /\ cg_ok = [ self \in ProcSet |-> FALSE]
+        /\ cg_seen = [ self \in ProcSet |-> TreeW(0, FALSE, 0)]
+        (* Procedure api_change *)
+        /\ ac_id = [ self \in ProcSet |-> defaultInitValue]
+        /\ ac_mclass = [ self \in ProcSet |-> defaultInitValue]
+        /\ ac_mfree = [ self \in ProcSet |-> defaultInitValue]
+        /\ ac_cclass = [ self \in ProcSet |-> defaultInitValue]
+        /\ ac_cop = [ self \in ProcSet |-> defaultInitValue]
+        /\ ac_i = [ self \in ProcSet |-> 0]
+        /\ ac_done = [ self \in ProcSet |-> FALSE]
         (* Process T *)
         /\ pcx = [self \in Threads |-> 1]
         /\ cur = [self \in Threads |-> [op |-> "none"]]
@@ -1162,7 +1265,11 @@ dp_flag(self) == /\ pc[self] = "dp_flag"
                                  ag_order, ag_class, ag_local, ag_frame, 
                                  ag_len, ag_start, ag_near, ag_done, ap_frame, 
                                  ap_order, ap_class, ap_local, ad_c, ad_k, 
-                                 ad_old, pcx, cur, blk >>
+                                 ad_old, cg_t, cg_mclass, cg_mfree, cg_cclass, 
+                                 cg_cop, cg_prev, cg_done, cg_fetched, cg_h, 
+                                 cg_v, cg_next, cg_ok, cg_seen, ac_id, 
+                                 ac_mclass, ac_mfree, ac_cclass, ac_cop, ac_i, 
+                                 ac_done, pcx, cur, blk >>
 
 dp_stop(self) == /\ pc[self] = "dp_stop"
                  /\ FALSE
@@ -1198,7 +1305,11 @@ dp_stop(self) == /\ pc[self] = "dp_stop"
                                  ag_order, ag_class, ag_local, ag_frame, 
                                  ag_len, ag_start, ag_near, ag_done, ap_frame, 
                                  ap_order, ap_class, ap_local, ad_c, ad_k, 
-                                 ad_old, pcx, cur, blk >>
+                                 ad_old, cg_t, cg_mclass, cg_mfree, cg_cclass, 
+                                 cg_cop, cg_prev, cg_done, cg_fetched, cg_h, 
+                                 cg_v, cg_next, cg_ok, cg_seen, ac_id, 
+                                 ac_mclass, ac_mfree, ac_cclass, ac_cop, ac_i, 
+                                 ac_done, pcx, cur, blk >>
 
 do_panic(self) == dp_flag(self) \/ dp_stop(self)
 
@@ -1235,7 +1346,12 @@ tu_load(self) == /\ pc[self] = "tu_load"
                                  dl_oldclass, ag_order, ag_class, ag_local, 
                                  ag_frame, ag_len, ag_start, ag_near, ag_done, 
                                  ap_frame, ap_order, ap_class, ap_local, ad_c, 
-                                 ad_k, ad_old, pcx, cur, blk >>
+                                 ad_k, ad_old, cg_t, cg_mclass, cg_mfree, 
+                                 cg_cclass, cg_cop, cg_prev, cg_done, 
+                                 cg_fetched, cg_h, cg_v, cg_next, cg_ok, 
+                                 cg_seen, ac_id, ac_mclass, ac_mfree, 
+                                 ac_cclass, ac_cop, ac_i, ac_done, pcx, cur, 
+                                 blk >>
 
 tu_cas(self) == /\ pc[self] = "tu_cas"
                 /\ IF ~tu_done[self]
@@ -1313,7 +1429,11 @@ tu_cas(self) == /\ pc[self] = "tu_cas"
                                 dl_oldclass, ag_order, ag_class, ag_local, 
                                 ag_frame, ag_len, ag_start, ag_near, ag_done, 
                                 ap_frame, ap_order, ap_class, ap_local, ad_c, 
-                                ad_k, ad_old, pcx, cur, blk >>
+                                ad_k, ad_old, cg_t, cg_mclass, cg_mfree, 
+                                cg_cclass, cg_cop, cg_prev, cg_done, 
+                                cg_fetched, cg_h, cg_v, cg_next, cg_ok, 
+                                cg_seen, ac_id, ac_mclass, ac_mfree, ac_cclass, 
+                                ac_cop, ac_i, ac_done, pcx, cur, blk >>
 
 try_update(self) == tu_load(self) \/ tu_cas(self)
 
@@ -1355,7 +1475,12 @@ lg_start(self) == /\ pc[self] = "lg_start"
                                   dl_oldclass, ag_order, ag_class, ag_local, 
                                   ag_frame, ag_len, ag_start, ag_near, ag_done, 
                                   ap_frame, ap_order, ap_class, ap_local, ad_c, 
-                                  ad_k, ad_old, pcx, cur, blk >>
+                                  ad_k, ad_old, cg_t, cg_mclass, cg_mfree, 
+                                  cg_cclass, cg_cop, cg_prev, cg_done, 
+                                  cg_fetched, cg_h, cg_v, cg_next, cg_ok, 
+                                  cg_seen, ac_id, ac_mclass, ac_mfree, 
+                                  ac_cclass, ac_cop, ac_i, ac_done, pcx, cur, 
+                                  blk >>
 
 lg_huge(self) == /\ pc[self] = "lg_huge"
                  /\ IF lg_j[self] < TH /\ ~lg_found[self]
@@ -1410,7 +1535,12 @@ lg_huge(self) == /\ pc[self] = "lg_huge"
                                  dl_oldclass, ag_order, ag_class, ag_local, 
                                  ag_frame, ag_len, ag_start, ag_near, ag_done, 
                                  ap_frame, ap_order, ap_class, ap_local, ad_c, 
-                                 ad_k, ad_old, pcx, cur, blk >>
+                                 ad_k, ad_old, cg_t, cg_mclass, cg_mfree, 
+                                 cg_cclass, cg_cop, cg_prev, cg_done, 
+                                 cg_fetched, cg_h, cg_v, cg_next, cg_ok, 
+                                 cg_seen, ac_id, ac_mclass, ac_mfree, 
+                                 ac_cclass, ac_cop, ac_i, ac_done, pcx, cur, 
+                                 blk >>
 
 lg_huge_r(self) == /\ pc[self] = "lg_huge_r"
                    /\ IF rv[self].ok
@@ -1449,8 +1579,12 @@ lg_huge_r(self) == /\ pc[self] = "lg_huge_r"
                                    dl_jj, dl_oldclass, ag_order, ag_class, 
                                    ag_local, ag_frame, ag_len, ag_start, 
                                    ag_near, ag_done, ap_frame, ap_order, 
-                                   ap_class, ap_local, ad_c, ad_k, ad_old, pcx, 
-                                   cur, blk >>
+                                   ap_class, ap_local, ad_c, ad_k, ad_old, 
+                                   cg_t, cg_mclass, cg_mfree, cg_cclass, 
+                                   cg_cop, cg_prev, cg_done, cg_fetched, cg_h, 
+                                   cg_v, cg_next, cg_ok, cg_seen, ac_id, 
+                                   ac_mclass, ac_mfree, ac_cclass, ac_cop, 
+                                   ac_i, ac_done, pcx, cur, blk >>
 
 lg_small(self) == /\ pc[self] = "lg_small"
                   /\ IF lg_j[self] < TH /\ ~lg_found[self]
@@ -1507,7 +1641,12 @@ lg_small(self) == /\ pc[self] = "lg_small"
                                   dl_oldclass, ag_order, ag_class, ag_local, 
                                   ag_frame, ag_len, ag_start, ag_near, ag_done, 
                                   ap_frame, ap_order, ap_class, ap_local, ad_c, 
-                                  ad_k, ad_old, pcx, cur, blk >>
+                                  ad_k, ad_old, cg_t, cg_mclass, cg_mfree, 
+                                  cg_cclass, cg_cop, cg_prev, cg_done, 
+                                  cg_fetched, cg_h, cg_v, cg_next, cg_ok, 
+                                  cg_seen, ac_id, ac_mclass, ac_mfree, 
+                                  ac_cclass, ac_cop, ac_i, ac_done, pcx, cur, 
+                                  blk >>
 
 lg_small_r(self) == /\ pc[self] = "lg_small_r"
                     /\ IF rv[self].ok
@@ -1580,7 +1719,12 @@ lg_small_r(self) == /\ pc[self] = "lg_small_r"
                                     ag_class, ag_local, ag_frame, ag_len, 
                                     ag_start, ag_near, ag_done, ap_frame, 
                                     ap_order, ap_class, ap_local, ad_c, ad_k, 
-                                    ad_old, pcx, cur, blk >>
+                                    ad_old, cg_t, cg_mclass, cg_mfree, 
+                                    cg_cclass, cg_cop, cg_prev, cg_done, 
+                                    cg_fetched, cg_h, cg_v, cg_next, cg_ok, 
+                                    cg_seen, ac_id, ac_mclass, ac_mfree, 
+                                    ac_cclass, ac_cop, ac_i, ac_done, pcx, cur, 
+                                    blk >>
 
 lg_small_s(self) == /\ pc[self] = "lg_small_s"
                     /\ IF rv[self].ok
@@ -1640,7 +1784,12 @@ lg_small_s(self) == /\ pc[self] = "lg_small_s"
                                     ag_class, ag_local, ag_frame, ag_len, 
                                     ag_start, ag_near, ag_done, ap_frame, 
                                     ap_order, ap_class, ap_local, ad_c, ad_k, 
-                                    ad_old, pcx, cur, blk >>
+                                    ad_old, cg_t, cg_mclass, cg_mfree, 
+                                    cg_cclass, cg_cop, cg_prev, cg_done, 
+                                    cg_fetched, cg_h, cg_v, cg_next, cg_ok, 
+                                    cg_seen, ac_id, ac_mclass, ac_mfree, 
+                                    ac_cclass, ac_cop, ac_i, ac_done, pcx, cur, 
+                                    blk >>
 
 lg_small_u(self) == /\ pc[self] = "lg_small_u"
                     /\ IF ~rv[self].ok
@@ -1684,8 +1833,12 @@ lg_small_u(self) == /\ pc[self] = "lg_small_u"
                                     dl_oldclass, ag_order, ag_class, ag_local, 
                                     ag_frame, ag_len, ag_start, ag_near, 
                                     ag_done, ap_frame, ap_order, ap_class, 
-                                    ap_local, ad_c, ad_k, ad_old, pcx, cur, 
-                                    blk >>
+                                    ap_local, ad_c, ad_k, ad_old, cg_t, 
+                                    cg_mclass, cg_mfree, cg_cclass, cg_cop, 
+                                    cg_prev, cg_done, cg_fetched, cg_h, cg_v, 
+                                    cg_next, cg_ok, cg_seen, ac_id, ac_mclass, 
+                                    ac_mfree, ac_cclass, ac_cop, ac_i, ac_done, 
+                                    pcx, cur, blk >>
 
 lg_ret(self) == /\ pc[self] = "lg_ret"
                 /\ rv' = [rv EXCEPT ![self] = [ok |-> lg_found[self], frame |-> lg_frame[self], err |-> "mem"]]
@@ -1727,7 +1880,11 @@ lg_ret(self) == /\ pc[self] = "lg_ret"
                                 dl_jj, dl_oldclass, ag_order, ag_class, 
                                 ag_local, ag_frame, ag_len, ag_start, ag_near, 
                                 ag_done, ap_frame, ap_order, ap_class, 
-                                ap_local, ad_c, ad_k, ad_old, pcx, cur, blk >>
+                                ap_local, ad_c, ad_k, ad_old, cg_t, cg_mclass, 
+                                cg_mfree, cg_cclass, cg_cop, cg_prev, cg_done, 
+                                cg_fetched, cg_h, cg_v, cg_next, cg_ok, 
+                                cg_seen, ac_id, ac_mclass, ac_mfree, ac_cclass, 
+                                ac_cop, ac_i, ac_done, pcx, cur, blk >>
 
 lower_get(self) == lg_start(self) \/ lg_huge(self) \/ lg_huge_r(self)
                       \/ lg_small(self) \/ lg_small_r(self)
@@ -1767,7 +1924,12 @@ ca_start(self) == /\ pc[self] = "ca_start"
                                   dl_oldclass, ag_order, ag_class, ag_local, 
                                   ag_frame, ag_len, ag_start, ag_near, ag_done, 
                                   ap_frame, ap_order, ap_class, ap_local, ad_c, 
-                                  ad_k, ad_old, pcx, cur, blk >>
+                                  ad_k, ad_old, cg_t, cg_mclass, cg_mfree, 
+                                  cg_cclass, cg_cop, cg_prev, cg_done, 
+                                  cg_fetched, cg_h, cg_v, cg_next, cg_ok, 
+                                  cg_seen, ac_id, ac_mclass, ac_mfree, 
+                                  ac_cclass, ac_cop, ac_i, ac_done, pcx, cur, 
+                                  blk >>
 
 ca_loop(self) == /\ pc[self] = "ca_loop"
                  /\ IF ca_i[self] < ca_num[self] /\ ca_ok[self]
@@ -1832,7 +1994,12 @@ ca_loop(self) == /\ pc[self] = "ca_loop"
                                  dl_oldclass, ag_order, ag_class, ag_local, 
                                  ag_frame, ag_len, ag_start, ag_near, ag_done, 
                                  ap_frame, ap_order, ap_class, ap_local, ad_c, 
-                                 ad_k, ad_old, pcx, cur, blk >>
+                                 ad_k, ad_old, cg_t, cg_mclass, cg_mfree, 
+                                 cg_cclass, cg_cop, cg_prev, cg_done, 
+                                 cg_fetched, cg_h, cg_v, cg_next, cg_ok, 
+                                 cg_seen, ac_id, ac_mclass, ac_mfree, 
+                                 ac_cclass, ac_cop, ac_i, ac_done, pcx, cur, 
+                                 blk >>
 
 ca_undo(self) == /\ pc[self] = "ca_undo"
                  /\ IF ca_j[self] >= 0
@@ -1887,7 +2054,11 @@ ca_undo(self) == /\ pc[self] = "ca_undo"
                                  ag_order, ag_class, ag_local, ag_frame, 
                                  ag_len, ag_start, ag_near, ag_done, ap_frame, 
                                  ap_order, ap_class, ap_local, ad_c, ad_k, 
-                                 ad_old, pcx, cur, blk >>
+                                 ad_old, cg_t, cg_mclass, cg_mfree, cg_cclass, 
+                                 cg_cop, cg_prev, cg_done, cg_fetched, cg_h, 
+                                 cg_v, cg_next, cg_ok, cg_seen, ac_id, 
+                                 ac_mclass, ac_mfree, ac_cclass, ac_cop, ac_i, 
+                                 ac_done, pcx, cur, blk >>
 
 ca_fail(self) == /\ pc[self] = "ca_fail"
                  /\ rv' = [rv EXCEPT ![self] = [ok |-> FALSE]]
@@ -1929,7 +2100,11 @@ ca_fail(self) == /\ pc[self] = "ca_fail"
                                  ag_order, ag_class, ag_local, ag_frame, 
                                  ag_len, ag_start, ag_near, ag_done, ap_frame, 
                                  ap_order, ap_class, ap_local, ad_c, ad_k, 
-                                 ad_old, pcx, cur, blk >>
+                                 ad_old, cg_t, cg_mclass, cg_mfree, cg_cclass, 
+                                 cg_cop, cg_prev, cg_done, cg_fetched, cg_h, 
+                                 cg_v, cg_next, cg_ok, cg_seen, ac_id, 
+                                 ac_mclass, ac_mfree, ac_cclass, ac_cop, ac_i, 
+                                 ac_done, pcx, cur, blk >>
 
 cmpxchg_all(self) == ca_start(self) \/ ca_loop(self) \/ ca_undo(self)
                         \/ ca_fail(self)
@@ -1971,7 +2146,12 @@ sf_begin(self) == /\ pc[self] = "sf_begin"
                                   dl_oldclass, ag_order, ag_class, ag_local, 
                                   ag_frame, ag_len, ag_start, ag_near, ag_done, 
                                   ap_frame, ap_order, ap_class, ap_local, ad_c, 
-                                  ad_k, ad_old, pcx, cur, blk >>
+                                  ad_k, ad_old, cg_t, cg_mclass, cg_mfree, 
+                                  cg_cclass, cg_cop, cg_prev, cg_done, 
+                                  cg_fetched, cg_h, cg_v, cg_next, cg_ok, 
+                                  cg_seen, ac_id, ac_mclass, ac_mfree, 
+                                  ac_cclass, ac_cop, ac_i, ac_done, pcx, cur, 
+                                  blk >>
 
 sf_rows(self) == /\ pc[self] = "sf_rows"
                  /\ IF sf_i[self] < ROWS /\ ~sf_found[self]
@@ -2027,7 +2207,12 @@ sf_rows(self) == /\ pc[self] = "sf_rows"
                                  dl_oldclass, ag_order, ag_class, ag_local, 
                                  ag_frame, ag_len, ag_start, ag_near, ag_done, 
                                  ap_frame, ap_order, ap_class, ap_local, ad_c, 
-                                 ad_k, ad_old, pcx, cur, blk >>
+                                 ad_k, ad_old, cg_t, cg_mclass, cg_mfree, 
+                                 cg_cclass, cg_cop, cg_prev, cg_done, 
+                                 cg_fetched, cg_h, cg_v, cg_next, cg_ok, 
+                                 cg_seen, ac_id, ac_mclass, ac_mfree, 
+                                 ac_cclass, ac_cop, ac_i, ac_done, pcx, cur, 
+                                 blk >>
 
 sf_rows_r(self) == /\ pc[self] = "sf_rows_r"
                    /\ IF rv[self].ok
@@ -2066,8 +2251,12 @@ sf_rows_r(self) == /\ pc[self] = "sf_rows_r"
                                    dl_jj, dl_oldclass, ag_order, ag_class, 
                                    ag_local, ag_frame, ag_len, ag_start, 
                                    ag_near, ag_done, ap_frame, ap_order, 
-                                   ap_class, ap_local, ad_c, ad_k, ad_old, pcx, 
-                                   cur, blk >>
+                                   ap_class, ap_local, ad_c, ad_k, ad_old, 
+                                   cg_t, cg_mclass, cg_mfree, cg_cclass, 
+                                   cg_cop, cg_prev, cg_done, cg_fetched, cg_h, 
+                                   cg_v, cg_next, cg_ok, cg_seen, ac_id, 
+                                   ac_mclass, ac_mfree, ac_cclass, ac_cop, 
+                                   ac_i, ac_done, pcx, cur, blk >>
 
 sf_chunks(self) == /\ pc[self] = "sf_chunks"
                    /\ IF sf_c[self] * sf_nrows[self] < ROWS /\ ~sf_found[self]
@@ -2105,8 +2294,12 @@ sf_chunks(self) == /\ pc[self] = "sf_chunks"
                                    dl_jj, dl_oldclass, ag_order, ag_class, 
                                    ag_local, ag_frame, ag_len, ag_start, 
                                    ag_near, ag_done, ap_frame, ap_order, 
-                                   ap_class, ap_local, ad_c, ad_k, ad_old, pcx, 
-                                   cur, blk >>
+                                   ap_class, ap_local, ad_c, ad_k, ad_old, 
+                                   cg_t, cg_mclass, cg_mfree, cg_cclass, 
+                                   cg_cop, cg_prev, cg_done, cg_fetched, cg_h, 
+                                   cg_v, cg_next, cg_ok, cg_seen, ac_id, 
+                                   ac_mclass, ac_mfree, ac_cclass, ac_cop, 
+                                   ac_i, ac_done, pcx, cur, blk >>
 
 sf_check(self) == /\ pc[self] = "sf_check"
                   /\ IF sf_k[self] < sf_nrows[self] /\ sf_zero[self]
@@ -2156,7 +2349,12 @@ sf_check(self) == /\ pc[self] = "sf_check"
                                   dl_oldclass, ag_order, ag_class, ag_local, 
                                   ag_frame, ag_len, ag_start, ag_near, ag_done, 
                                   ap_frame, ap_order, ap_class, ap_local, ad_c, 
-                                  ad_k, ad_old, pcx, cur, blk >>
+                                  ad_k, ad_old, cg_t, cg_mclass, cg_mfree, 
+                                  cg_cclass, cg_cop, cg_prev, cg_done, 
+                                  cg_fetched, cg_h, cg_v, cg_next, cg_ok, 
+                                  cg_seen, ac_id, ac_mclass, ac_mfree, 
+                                  ac_cclass, ac_cop, ac_i, ac_done, pcx, cur, 
+                                  blk >>
 
 sf_set(self) == /\ pc[self] = "sf_set"
                 /\ IF sf_k[self] < sf_nrows[self] /\ sf_ok[self]
@@ -2211,7 +2409,11 @@ sf_set(self) == /\ pc[self] = "sf_set"
                                 dl_oldclass, ag_order, ag_class, ag_local, 
                                 ag_frame, ag_len, ag_start, ag_near, ag_done, 
                                 ap_frame, ap_order, ap_class, ap_local, ad_c, 
-                                ad_k, ad_old, pcx, cur, blk >>
+                                ad_k, ad_old, cg_t, cg_mclass, cg_mfree, 
+                                cg_cclass, cg_cop, cg_prev, cg_done, 
+                                cg_fetched, cg_h, cg_v, cg_next, cg_ok, 
+                                cg_seen, ac_id, ac_mclass, ac_mfree, ac_cclass, 
+                                ac_cop, ac_i, ac_done, pcx, cur, blk >>
 
 sf_undo(self) == /\ pc[self] = "sf_undo"
                  /\ IF sf_u[self] >= 0
@@ -2268,7 +2470,11 @@ sf_undo(self) == /\ pc[self] = "sf_undo"
                                  ag_order, ag_class, ag_local, ag_frame, 
                                  ag_len, ag_start, ag_near, ag_done, ap_frame, 
                                  ap_order, ap_class, ap_local, ad_c, ad_k, 
-                                 ad_old, pcx, cur, blk >>
+                                 ad_old, cg_t, cg_mclass, cg_mfree, cg_cclass, 
+                                 cg_cop, cg_prev, cg_done, cg_fetched, cg_h, 
+                                 cg_v, cg_next, cg_ok, cg_seen, ac_id, 
+                                 ac_mclass, ac_mfree, ac_cclass, ac_cop, ac_i, 
+                                 ac_done, pcx, cur, blk >>
 
 sf_ret(self) == /\ pc[self] = "sf_ret"
                 /\ rv' = [rv EXCEPT ![self] = [ok |-> sf_found[self], off |-> sf_off[self]]]
@@ -2314,8 +2520,12 @@ sf_ret(self) == /\ pc[self] = "sf_ret"
                                 dl_found, dl_new, dl_old, dl_jj, dl_oldclass, 
                                 ag_order, ag_class, ag_local, ag_frame, ag_len, 
                                 ag_start, ag_near, ag_done, ap_frame, ap_order, 
-                                ap_class, ap_local, ad_c, ad_k, ad_old, pcx, 
-                                cur, blk >>
+                                ap_class, ap_local, ad_c, ad_k, ad_old, cg_t, 
+                                cg_mclass, cg_mfree, cg_cclass, cg_cop, 
+                                cg_prev, cg_done, cg_fetched, cg_h, cg_v, 
+                                cg_next, cg_ok, cg_seen, ac_id, ac_mclass, 
+                                ac_mfree, ac_cclass, ac_cop, ac_i, ac_done, 
+                                pcx, cur, blk >>
 
 set_first_zeros(self) == sf_begin(self) \/ sf_rows(self) \/ sf_rows_r(self)
                             \/ sf_chunks(self) \/ sf_check(self)
@@ -2388,7 +2598,12 @@ tg_begin(self) == /\ pc[self] = "tg_begin"
                                   dl_oldclass, ag_order, ag_class, ag_local, 
                                   ag_frame, ag_len, ag_start, ag_near, ag_done, 
                                   ap_frame, ap_order, ap_class, ap_local, ad_c, 
-                                  ad_k, ad_old, pcx, cur, blk >>
+                                  ad_k, ad_old, cg_t, cg_mclass, cg_mfree, 
+                                  cg_cclass, cg_cop, cg_prev, cg_done, 
+                                  cg_fetched, cg_h, cg_v, cg_next, cg_ok, 
+                                  cg_seen, ac_id, ac_mclass, ac_mfree, 
+                                  ac_cclass, ac_cop, ac_i, ac_done, pcx, cur, 
+                                  blk >>
 
 tg_small_r(self) == /\ pc[self] = "tg_small_r"
                     /\ rv' = [rv EXCEPT ![self] = [ok |-> rv[self].ok]]
@@ -2433,7 +2648,12 @@ tg_small_r(self) == /\ pc[self] = "tg_small_r"
                                     ag_class, ag_local, ag_frame, ag_len, 
                                     ag_start, ag_near, ag_done, ap_frame, 
                                     ap_order, ap_class, ap_local, ad_c, ad_k, 
-                                    ad_old, pcx, cur, blk >>
+                                    ad_old, cg_t, cg_mclass, cg_mfree, 
+                                    cg_cclass, cg_cop, cg_prev, cg_done, 
+                                    cg_fetched, cg_h, cg_v, cg_next, cg_ok, 
+                                    cg_seen, ac_id, ac_mclass, ac_mfree, 
+                                    ac_cclass, ac_cop, ac_i, ac_done, pcx, cur, 
+                                    blk >>
 
 tg_int(self) == /\ pc[self] = "tg_int"
                 /\ IF (mem[(Row(tg_h[self], tg_off[self] \div 64))] \cap ((tg_off[self] % 64) .. (tg_off[self] % 64) + (P2(tg_order[self])) - 1)) = (IF tg_exp[self] THEN (tg_off[self] % 64) .. (tg_off[self] % 64) + (P2(tg_order[self])) - 1 ELSE {})
@@ -2474,7 +2694,11 @@ tg_int(self) == /\ pc[self] = "tg_int"
                                 dl_oldclass, ag_order, ag_class, ag_local, 
                                 ag_frame, ag_len, ag_start, ag_near, ag_done, 
                                 ap_frame, ap_order, ap_class, ap_local, ad_c, 
-                                ad_k, ad_old, pcx, cur, blk >>
+                                ad_k, ad_old, cg_t, cg_mclass, cg_mfree, 
+                                cg_cclass, cg_cop, cg_prev, cg_done, 
+                                cg_fetched, cg_h, cg_v, cg_next, cg_ok, 
+                                cg_seen, ac_id, ac_mclass, ac_mfree, ac_cclass, 
+                                ac_cop, ac_i, ac_done, pcx, cur, blk >>
 
 Lbl_1(self) == /\ pc[self] = "Lbl_1"
                /\ pc' = [pc EXCEPT ![self] = Head(stack[self]).pc]
@@ -2515,7 +2739,11 @@ Lbl_1(self) == /\ pc[self] = "Lbl_1"
                                dl_oldclass, ag_order, ag_class, ag_local, 
                                ag_frame, ag_len, ag_start, ag_near, ag_done, 
                                ap_frame, ap_order, ap_class, ap_local, ad_c, 
-                               ad_k, ad_old, pcx, cur, blk >>
+                               ad_k, ad_old, cg_t, cg_mclass, cg_mfree, 
+                               cg_cclass, cg_cop, cg_prev, cg_done, cg_fetched, 
+                               cg_h, cg_v, cg_next, cg_ok, cg_seen, ac_id, 
+                               ac_mclass, ac_mfree, ac_cclass, ac_cop, ac_i, 
+                               ac_done, pcx, cur, blk >>
 
 tg_int64(self) == /\ pc[self] = "tg_int64"
                   /\ IF mem[(Row(tg_h[self], tg_off[self] \div 64))] = (IF tg_exp[self] THEN AllBits ELSE {})
@@ -2558,7 +2786,11 @@ tg_int64(self) == /\ pc[self] = "tg_int64"
                                   ag_class, ag_local, ag_frame, ag_len, 
                                   ag_start, ag_near, ag_done, ap_frame, 
                                   ap_order, ap_class, ap_local, ad_c, ad_k, 
-                                  ad_old, pcx, cur, blk >>
+                                  ad_old, cg_t, cg_mclass, cg_mfree, cg_cclass, 
+                                  cg_cop, cg_prev, cg_done, cg_fetched, cg_h, 
+                                  cg_v, cg_next, cg_ok, cg_seen, ac_id, 
+                                  ac_mclass, ac_mfree, ac_cclass, ac_cop, ac_i, 
+                                  ac_done, pcx, cur, blk >>
 
 Lbl_2(self) == /\ pc[self] = "Lbl_2"
                /\ pc' = [pc EXCEPT ![self] = Head(stack[self]).pc]
@@ -2599,7 +2831,11 @@ Lbl_2(self) == /\ pc[self] = "Lbl_2"
                                dl_oldclass, ag_order, ag_class, ag_local, 
                                ag_frame, ag_len, ag_start, ag_near, ag_done, 
                                ap_frame, ap_order, ap_class, ap_local, ad_c, 
-                               ad_k, ad_old, pcx, cur, blk >>
+                               ad_k, ad_old, cg_t, cg_mclass, cg_mfree, 
+                               cg_cclass, cg_cop, cg_prev, cg_done, cg_fetched, 
+                               cg_h, cg_v, cg_next, cg_ok, cg_seen, ac_id, 
+                               ac_mclass, ac_mfree, ac_cclass, ac_cop, ac_i, 
+                               ac_done, pcx, cur, blk >>
 
 tg_rows(self) == /\ pc[self] = "tg_rows"
                  /\ IF tg_i[self] < tg_n[self] /\ tg_ok[self]
@@ -2667,7 +2903,11 @@ tg_rows(self) == /\ pc[self] = "tg_rows"
                                  ag_order, ag_class, ag_local, ag_frame, 
                                  ag_len, ag_start, ag_near, ag_done, ap_frame, 
                                  ap_order, ap_class, ap_local, ad_c, ad_k, 
-                                 ad_old, pcx, cur, blk >>
+                                 ad_old, cg_t, cg_mclass, cg_mfree, cg_cclass, 
+                                 cg_cop, cg_prev, cg_done, cg_fetched, cg_h, 
+                                 cg_v, cg_next, cg_ok, cg_seen, ac_id, 
+                                 ac_mclass, ac_mfree, ac_cclass, ac_cop, ac_i, 
+                                 ac_done, pcx, cur, blk >>
 
 tg_undo(self) == /\ pc[self] = "tg_undo"
                  /\ IF tg_u[self] >= 0
@@ -2722,7 +2962,11 @@ tg_undo(self) == /\ pc[self] = "tg_undo"
                                  ag_order, ag_class, ag_local, ag_frame, 
                                  ag_len, ag_start, ag_near, ag_done, ap_frame, 
                                  ap_order, ap_class, ap_local, ad_c, ad_k, 
-                                 ad_old, pcx, cur, blk >>
+                                 ad_old, cg_t, cg_mclass, cg_mfree, cg_cclass, 
+                                 cg_cop, cg_prev, cg_done, cg_fetched, cg_h, 
+                                 cg_v, cg_next, cg_ok, cg_seen, ac_id, 
+                                 ac_mclass, ac_mfree, ac_cclass, ac_cop, ac_i, 
+                                 ac_done, pcx, cur, blk >>
 
 tg_fail(self) == /\ pc[self] = "tg_fail"
                  /\ rv' = [rv EXCEPT ![self] = [ok |-> FALSE]]
@@ -2765,7 +3009,12 @@ tg_fail(self) == /\ pc[self] = "tg_fail"
                                  dl_oldclass, ag_order, ag_class, ag_local, 
                                  ag_frame, ag_len, ag_start, ag_near, ag_done, 
                                  ap_frame, ap_order, ap_class, ap_local, ad_c, 
-                                 ad_k, ad_old, pcx, cur, blk >>
+                                 ad_k, ad_old, cg_t, cg_mclass, cg_mfree, 
+                                 cg_cclass, cg_cop, cg_prev, cg_done, 
+                                 cg_fetched, cg_h, cg_v, cg_next, cg_ok, 
+                                 cg_seen, ac_id, ac_mclass, ac_mfree, 
+                                 ac_cclass, ac_cop, ac_i, ac_done, pcx, cur, 
+                                 blk >>
 
 toggle(self) == tg_begin(self) \/ tg_small_r(self) \/ tg_int(self)
                    \/ Lbl_1(self) \/ tg_int64(self) \/ Lbl_2(self)
@@ -2844,7 +3093,12 @@ la_begin(self) == /\ pc[self] = "la_begin"
                                   dl_oldclass, ag_order, ag_class, ag_local, 
                                   ag_frame, ag_len, ag_start, ag_near, ag_done, 
                                   ap_frame, ap_order, ap_class, ap_local, ad_c, 
-                                  ad_k, ad_old, pcx, cur, blk >>
+                                  ad_k, ad_old, cg_t, cg_mclass, cg_mfree, 
+                                  cg_cclass, cg_cop, cg_prev, cg_done, 
+                                  cg_fetched, cg_h, cg_v, cg_next, cg_ok, 
+                                  cg_seen, ac_id, ac_mclass, ac_mfree, 
+                                  ac_cclass, ac_cop, ac_i, ac_done, pcx, cur, 
+                                  blk >>
 
 la_huge_r(self) == /\ pc[self] = "la_huge_r"
                    /\ rv' = [rv EXCEPT ![self] = [ok |-> rv[self].ok, frame |-> la_frame[self], err |-> "mem"]]
@@ -2882,8 +3136,12 @@ la_huge_r(self) == /\ pc[self] = "la_huge_r"
                                    dl_jj, dl_oldclass, ag_order, ag_class, 
                                    ag_local, ag_frame, ag_len, ag_start, 
                                    ag_near, ag_done, ap_frame, ap_order, 
-                                   ap_class, ap_local, ad_c, ad_k, ad_old, pcx, 
-                                   cur, blk >>
+                                   ap_class, ap_local, ad_c, ad_k, ad_old, 
+                                   cg_t, cg_mclass, cg_mfree, cg_cclass, 
+                                   cg_cop, cg_prev, cg_done, cg_fetched, cg_h, 
+                                   cg_v, cg_next, cg_ok, cg_seen, ac_id, 
+                                   ac_mclass, ac_mfree, ac_cclass, ac_cop, 
+                                   ac_i, ac_done, pcx, cur, blk >>
 
 la_dec_r(self) == /\ pc[self] = "la_dec_r"
                   /\ IF rv[self].ok
@@ -2948,7 +3206,12 @@ la_dec_r(self) == /\ pc[self] = "la_dec_r"
                                   dl_oldclass, ag_order, ag_class, ag_local, 
                                   ag_frame, ag_len, ag_start, ag_near, ag_done, 
                                   ap_frame, ap_order, ap_class, ap_local, ad_c, 
-                                  ad_k, ad_old, pcx, cur, blk >>
+                                  ad_k, ad_old, cg_t, cg_mclass, cg_mfree, 
+                                  cg_cclass, cg_cop, cg_prev, cg_done, 
+                                  cg_fetched, cg_h, cg_v, cg_next, cg_ok, 
+                                  cg_seen, ac_id, ac_mclass, ac_mfree, 
+                                  ac_cclass, ac_cop, ac_i, ac_done, pcx, cur, 
+                                  blk >>
 
 la_tog_r(self) == /\ pc[self] = "la_tog_r"
                   /\ IF rv[self].ok
@@ -3008,7 +3271,12 @@ la_tog_r(self) == /\ pc[self] = "la_tog_r"
                                   dl_oldclass, ag_order, ag_class, ag_local, 
                                   ag_frame, ag_len, ag_start, ag_near, ag_done, 
                                   ap_frame, ap_order, ap_class, ap_local, ad_c, 
-                                  ad_k, ad_old, pcx, cur, blk >>
+                                  ad_k, ad_old, cg_t, cg_mclass, cg_mfree, 
+                                  cg_cclass, cg_cop, cg_prev, cg_done, 
+                                  cg_fetched, cg_h, cg_v, cg_next, cg_ok, 
+                                  cg_seen, ac_id, ac_mclass, ac_mfree, 
+                                  ac_cclass, ac_cop, ac_i, ac_done, pcx, cur, 
+                                  blk >>
 
 la_undo_r(self) == /\ pc[self] = "la_undo_r"
                    /\ IF ~rv[self].ok
@@ -3055,7 +3323,12 @@ la_undo_r(self) == /\ pc[self] = "la_undo_r"
                                    ag_order, ag_class, ag_local, ag_frame, 
                                    ag_len, ag_start, ag_near, ag_done, 
                                    ap_frame, ap_order, ap_class, ap_local, 
-                                   ad_c, ad_k, ad_old, pcx, cur, blk >>
+                                   ad_c, ad_k, ad_old, cg_t, cg_mclass, 
+                                   cg_mfree, cg_cclass, cg_cop, cg_prev, 
+                                   cg_done, cg_fetched, cg_h, cg_v, cg_next, 
+                                   cg_ok, cg_seen, ac_id, ac_mclass, ac_mfree, 
+                                   ac_cclass, ac_cop, ac_i, ac_done, pcx, cur, 
+                                   blk >>
 
 lower_get_at(self) == la_begin(self) \/ la_huge_r(self) \/ la_dec_r(self)
                          \/ la_tog_r(self) \/ la_undo_r(self)
@@ -3112,7 +3385,12 @@ ps_begin(self) == /\ pc[self] = "ps_begin"
                                   dl_oldclass, ag_order, ag_class, ag_local, 
                                   ag_frame, ag_len, ag_start, ag_near, ag_done, 
                                   ap_frame, ap_order, ap_class, ap_local, ad_c, 
-                                  ad_k, ad_old, pcx, cur, blk >>
+                                  ad_k, ad_old, cg_t, cg_mclass, cg_mfree, 
+                                  cg_cclass, cg_cop, cg_prev, cg_done, 
+                                  cg_fetched, cg_h, cg_v, cg_next, cg_ok, 
+                                  cg_seen, ac_id, ac_mclass, ac_mfree, 
+                                  ac_cclass, ac_cop, ac_i, ac_done, pcx, cur, 
+                                  blk >>
 
 ps_tog_r(self) == /\ pc[self] = "ps_tog_r"
                   /\ IF ~rv[self].ok
@@ -3171,7 +3449,12 @@ ps_tog_r(self) == /\ pc[self] = "ps_tog_r"
                                   dl_oldclass, ag_order, ag_class, ag_local, 
                                   ag_frame, ag_len, ag_start, ag_near, ag_done, 
                                   ap_frame, ap_order, ap_class, ap_local, ad_c, 
-                                  ad_k, ad_old, pcx, cur, blk >>
+                                  ad_k, ad_old, cg_t, cg_mclass, cg_mfree, 
+                                  cg_cclass, cg_cop, cg_prev, cg_done, 
+                                  cg_fetched, cg_h, cg_v, cg_next, cg_ok, 
+                                  cg_seen, ac_id, ac_mclass, ac_mfree, 
+                                  ac_cclass, ac_cop, ac_i, ac_done, pcx, cur, 
+                                  blk >>
 
 ps_inc_r(self) == /\ pc[self] = "ps_inc_r"
                   /\ IF ~rv[self].ok
@@ -3217,7 +3500,11 @@ ps_inc_r(self) == /\ pc[self] = "ps_inc_r"
                                   ag_class, ag_local, ag_frame, ag_len, 
                                   ag_start, ag_near, ag_done, ap_frame, 
                                   ap_order, ap_class, ap_local, ad_c, ad_k, 
-                                  ad_old, pcx, cur, blk >>
+                                  ad_old, cg_t, cg_mclass, cg_mfree, cg_cclass, 
+                                  cg_cop, cg_prev, cg_done, cg_fetched, cg_h, 
+                                  cg_v, cg_next, cg_ok, cg_seen, ac_id, 
+                                  ac_mclass, ac_mfree, ac_cclass, ac_cop, ac_i, 
+                                  ac_done, pcx, cur, blk >>
 
 put_small(self) == ps_begin(self) \/ ps_tog_r(self) \/ ps_inc_r(self)
 
@@ -3276,7 +3563,11 @@ lp_begin(self) == /\ pc[self] = "lp_begin"
                                   ag_class, ag_local, ag_frame, ag_len, 
                                   ag_start, ag_near, ag_done, ap_frame, 
                                   ap_order, ap_class, ap_local, ad_c, ad_k, 
-                                  ad_old, pcx, cur, blk >>
+                                  ad_old, cg_t, cg_mclass, cg_mfree, cg_cclass, 
+                                  cg_cop, cg_prev, cg_done, cg_fetched, cg_h, 
+                                  cg_v, cg_next, cg_ok, cg_seen, ac_id, 
+                                  ac_mclass, ac_mfree, ac_cclass, ac_cop, ac_i, 
+                                  ac_done, pcx, cur, blk >>
 
 lp_huge_r(self) == /\ pc[self] = "lp_huge_r"
                    /\ rv' = [rv EXCEPT ![self] = [ok |-> rv[self].ok]]
@@ -3318,8 +3609,12 @@ lp_huge_r(self) == /\ pc[self] = "lp_huge_r"
                                    dl_jj, dl_oldclass, ag_order, ag_class, 
                                    ag_local, ag_frame, ag_len, ag_start, 
                                    ag_near, ag_done, ap_frame, ap_order, 
-                                   ap_class, ap_local, ad_c, ad_k, ad_old, pcx, 
-                                   cur, blk >>
+                                   ap_class, ap_local, ad_c, ad_k, ad_old, 
+                                   cg_t, cg_mclass, cg_mfree, cg_cclass, 
+                                   cg_cop, cg_prev, cg_done, cg_fetched, cg_h, 
+                                   cg_v, cg_next, cg_ok, cg_seen, ac_id, 
+                                   ac_mclass, ac_mfree, ac_cclass, ac_cop, 
+                                   ac_i, ac_done, pcx, cur, blk >>
 
 lp_load(self) == /\ pc[self] = "lp_load"
                  /\ lp_old' = [lp_old EXCEPT ![self] = mem[(Entry(lp_h[self]))]]
@@ -3394,7 +3689,11 @@ lp_load(self) == /\ pc[self] = "lp_load"
                                  ag_order, ag_class, ag_local, ag_frame, 
                                  ag_len, ag_start, ag_near, ag_done, ap_frame, 
                                  ap_order, ap_class, ap_local, ad_c, ad_k, 
-                                 ad_old, pcx, cur, blk >>
+                                 ad_old, cg_t, cg_mclass, cg_mfree, cg_cclass, 
+                                 cg_cop, cg_prev, cg_done, cg_fetched, cg_h, 
+                                 cg_v, cg_next, cg_ok, cg_seen, ac_id, 
+                                 ac_mclass, ac_mfree, ac_cclass, ac_cop, ac_i, 
+                                 ac_done, pcx, cur, blk >>
 
 lp_fill_r(self) == /\ pc[self] = "lp_fill_r"
                    /\ IF rv[self].ok
@@ -3432,8 +3731,12 @@ lp_fill_r(self) == /\ pc[self] = "lp_fill_r"
                                    dl_jj, dl_oldclass, ag_order, ag_class, 
                                    ag_local, ag_frame, ag_len, ag_start, 
                                    ag_near, ag_done, ap_frame, ap_order, 
-                                   ap_class, ap_local, ad_c, ad_k, ad_old, pcx, 
-                                   cur, blk >>
+                                   ap_class, ap_local, ad_c, ad_k, ad_old, 
+                                   cg_t, cg_mclass, cg_mfree, cg_cclass, 
+                                   cg_cop, cg_prev, cg_done, cg_fetched, cg_h, 
+                                   cg_v, cg_next, cg_ok, cg_seen, ac_id, 
+                                   ac_mclass, ac_mfree, ac_cclass, ac_cop, 
+                                   ac_i, ac_done, pcx, cur, blk >>
 
 lp_clear(self) == /\ pc[self] = "lp_clear"
                   /\ IF mem[(Entry(lp_h[self]))] = lp_old[self]
@@ -3482,7 +3785,12 @@ lp_clear(self) == /\ pc[self] = "lp_clear"
                                   dl_oldclass, ag_order, ag_class, ag_local, 
                                   ag_frame, ag_len, ag_start, ag_near, ag_done, 
                                   ap_frame, ap_order, ap_class, ap_local, ad_c, 
-                                  ad_k, ad_old, pcx, cur, blk >>
+                                  ad_k, ad_old, cg_t, cg_mclass, cg_mfree, 
+                                  cg_cclass, cg_cop, cg_prev, cg_done, 
+                                  cg_fetched, cg_h, cg_v, cg_next, cg_ok, 
+                                  cg_seen, ac_id, ac_mclass, ac_mfree, 
+                                  ac_cclass, ac_cop, ac_i, ac_done, pcx, cur, 
+                                  blk >>
 
 lp_wait(self) == /\ pc[self] = "lp_wait"
                  /\ IF lp_spin[self] < 4 /\ lp_v[self] = HUGE
@@ -3529,7 +3837,12 @@ lp_wait(self) == /\ pc[self] = "lp_wait"
                                  dl_oldclass, ag_order, ag_class, ag_local, 
                                  ag_frame, ag_len, ag_start, ag_near, ag_done, 
                                  ap_frame, ap_order, ap_class, ap_local, ad_c, 
-                                 ad_k, ad_old, pcx, cur, blk >>
+                                 ad_k, ad_old, cg_t, cg_mclass, cg_mfree, 
+                                 cg_cclass, cg_cop, cg_prev, cg_done, 
+                                 cg_fetched, cg_h, cg_v, cg_next, cg_ok, 
+                                 cg_seen, ac_id, ac_mclass, ac_mfree, 
+                                 ac_cclass, ac_cop, ac_i, ac_done, pcx, cur, 
+                                 blk >>
 
 lp_small(self) == /\ pc[self] = "lp_small"
                   /\ /\ ps_frame' = [ps_frame EXCEPT ![self] = lp_frame[self]]
@@ -3569,7 +3882,11 @@ lp_small(self) == /\ pc[self] = "lp_small"
                                   ag_class, ag_local, ag_frame, ag_len, 
                                   ag_start, ag_near, ag_done, ap_frame, 
                                   ap_order, ap_class, ap_local, ad_c, ad_k, 
-                                  ad_old, pcx, cur, blk >>
+                                  ad_old, cg_t, cg_mclass, cg_mfree, cg_cclass, 
+                                  cg_cop, cg_prev, cg_done, cg_fetched, cg_h, 
+                                  cg_v, cg_next, cg_ok, cg_seen, ac_id, 
+                                  ac_mclass, ac_mfree, ac_cclass, ac_cop, ac_i, 
+                                  ac_done, pcx, cur, blk >>
 
 lp_small_r(self) == /\ pc[self] = "lp_small_r"
                     /\ pc' = [pc EXCEPT ![self] = Head(stack[self]).pc]
@@ -3611,8 +3928,12 @@ lp_small_r(self) == /\ pc[self] = "lp_small_r"
                                     dl_oldclass, ag_order, ag_class, ag_local, 
                                     ag_frame, ag_len, ag_start, ag_near, 
                                     ag_done, ap_frame, ap_order, ap_class, 
-                                    ap_local, ad_c, ad_k, ad_old, pcx, cur, 
-                                    blk >>
+                                    ap_local, ad_c, ad_k, ad_old, cg_t, 
+                                    cg_mclass, cg_mfree, cg_cclass, cg_cop, 
+                                    cg_prev, cg_done, cg_fetched, cg_h, cg_v, 
+                                    cg_next, cg_ok, cg_seen, ac_id, ac_mclass, 
+                                    ac_mfree, ac_cclass, ac_cop, ac_i, ac_done, 
+                                    pcx, cur, blk >>
 
 lp_small2_r(self) == /\ pc[self] = "lp_small2_r"
                      /\ pc' = [pc EXCEPT ![self] = Head(stack[self]).pc]
@@ -3655,8 +3976,12 @@ lp_small2_r(self) == /\ pc[self] = "lp_small2_r"
                                      dl_oldclass, ag_order, ag_class, ag_local, 
                                      ag_frame, ag_len, ag_start, ag_near, 
                                      ag_done, ap_frame, ap_order, ap_class, 
-                                     ap_local, ad_c, ad_k, ad_old, pcx, cur, 
-                                     blk >>
+                                     ap_local, ad_c, ad_k, ad_old, cg_t, 
+                                     cg_mclass, cg_mfree, cg_cclass, cg_cop, 
+                                     cg_prev, cg_done, cg_fetched, cg_h, cg_v, 
+                                     cg_next, cg_ok, cg_seen, ac_id, ac_mclass, 
+                                     ac_mfree, ac_cclass, ac_cop, ac_i, 
+                                     ac_done, pcx, cur, blk >>
 
 Lbl_3(self) == /\ pc[self] = "Lbl_3"
                /\ pc' = [pc EXCEPT ![self] = Head(stack[self]).pc]
@@ -3695,7 +4020,11 @@ Lbl_3(self) == /\ pc[self] = "Lbl_3"
                                dl_oldclass, ag_order, ag_class, ag_local, 
                                ag_frame, ag_len, ag_start, ag_near, ag_done, 
                                ap_frame, ap_order, ap_class, ap_local, ad_c, 
-                               ad_k, ad_old, pcx, cur, blk >>
+                               ad_k, ad_old, cg_t, cg_mclass, cg_mfree, 
+                               cg_cclass, cg_cop, cg_prev, cg_done, cg_fetched, 
+                               cg_h, cg_v, cg_next, cg_ok, cg_seen, ac_id, 
+                               ac_mclass, ac_mfree, ac_cclass, ac_cop, ac_i, 
+                               ac_done, pcx, cur, blk >>
 
 lower_put(self) == lp_begin(self) \/ lp_huge_r(self) \/ lp_load(self)
                       \/ lp_fill_r(self) \/ lp_clear(self) \/ lp_wait(self)
@@ -3751,7 +4080,12 @@ tp_begin(self) == /\ pc[self] = "tp_begin"
                                   dl_oldclass, ag_order, ag_class, ag_local, 
                                   ag_frame, ag_len, ag_start, ag_near, ag_done, 
                                   ap_frame, ap_order, ap_class, ap_local, ad_c, 
-                                  ad_k, ad_old, pcx, cur, blk >>
+                                  ad_k, ad_old, cg_t, cg_mclass, cg_mfree, 
+                                  cg_cclass, cg_cop, cg_prev, cg_done, 
+                                  cg_fetched, cg_h, cg_v, cg_next, cg_ok, 
+                                  cg_seen, ac_id, ac_mclass, ac_mfree, 
+                                  ac_cclass, ac_cop, ac_i, ac_done, pcx, cur, 
+                                  blk >>
 
 tp_r(self) == /\ pc[self] = "tp_r"
               /\ pc' = [pc EXCEPT ![self] = Head(stack[self]).pc]
@@ -3784,8 +4118,11 @@ tp_r(self) == /\ pc[self] = "tp_r"
                               dl_found, dl_new, dl_old, dl_jj, dl_oldclass, 
                               ag_order, ag_class, ag_local, ag_frame, ag_len, 
                               ag_start, ag_near, ag_done, ap_frame, ap_order, 
-                              ap_class, ap_local, ad_c, ad_k, ad_old, pcx, cur, 
-                              blk >>
+                              ap_class, ap_local, ad_c, ad_k, ad_old, cg_t, 
+                              cg_mclass, cg_mfree, cg_cclass, cg_cop, cg_prev, 
+                              cg_done, cg_fetched, cg_h, cg_v, cg_next, cg_ok, 
+                              cg_seen, ac_id, ac_mclass, ac_mfree, ac_cclass, 
+                              ac_cop, ac_i, ac_done, pcx, cur, blk >>
 
 trees_put(self) == tp_begin(self) \/ tp_r(self)
 
@@ -3838,7 +4175,12 @@ un_begin(self) == /\ pc[self] = "un_begin"
                                   dl_oldclass, ag_order, ag_class, ag_local, 
                                   ag_frame, ag_len, ag_start, ag_near, ag_done, 
                                   ap_frame, ap_order, ap_class, ap_local, ad_c, 
-                                  ad_k, ad_old, pcx, cur, blk >>
+                                  ad_k, ad_old, cg_t, cg_mclass, cg_mfree, 
+                                  cg_cclass, cg_cop, cg_prev, cg_done, 
+                                  cg_fetched, cg_h, cg_v, cg_next, cg_ok, 
+                                  cg_seen, ac_id, ac_mclass, ac_mfree, 
+                                  ac_cclass, ac_cop, ac_i, ac_done, pcx, cur, 
+                                  blk >>
 
 un_r(self) == /\ pc[self] = "un_r"
               /\ IF ~rv[self].ok
@@ -3881,7 +4223,11 @@ un_r(self) == /\ pc[self] = "un_r"
                               dl_jj, dl_oldclass, ag_order, ag_class, ag_local, 
                               ag_frame, ag_len, ag_start, ag_near, ag_done, 
                               ap_frame, ap_order, ap_class, ap_local, ad_c, 
-                              ad_k, ad_old, pcx, cur, blk >>
+                              ad_k, ad_old, cg_t, cg_mclass, cg_mfree, 
+                              cg_cclass, cg_cop, cg_prev, cg_done, cg_fetched, 
+                              cg_h, cg_v, cg_next, cg_ok, cg_seen, ac_id, 
+                              ac_mclass, ac_mfree, ac_cclass, ac_cop, ac_i, 
+                              ac_done, pcx, cur, blk >>
 
 trees_unreserve(self) == un_begin(self) \/ un_r(self)
 
@@ -3934,7 +4280,12 @@ gl_begin(self) == /\ pc[self] = "gl_begin"
                                   dl_oldclass, ag_order, ag_class, ag_local, 
                                   ag_frame, ag_len, ag_start, ag_near, ag_done, 
                                   ap_frame, ap_order, ap_class, ap_local, ad_c, 
-                                  ad_k, ad_old, pcx, cur, blk >>
+                                  ad_k, ad_old, cg_t, cg_mclass, cg_mfree, 
+                                  cg_cclass, cg_cop, cg_prev, cg_done, 
+                                  cg_fetched, cg_h, cg_v, cg_next, cg_ok, 
+                                  cg_seen, ac_id, ac_mclass, ac_mfree, 
+                                  ac_cclass, ac_cop, ac_i, ac_done, pcx, cur, 
+                                  blk >>
 
 gl_get_r(self) == /\ pc[self] = "gl_get_r"
                   /\ IF rv[self].ok
@@ -4054,7 +4405,11 @@ gl_get_r(self) == /\ pc[self] = "gl_get_r"
                                   ag_order, ag_class, ag_local, ag_frame, 
                                   ag_len, ag_start, ag_near, ag_done, ap_frame, 
                                   ap_order, ap_class, ap_local, ad_c, ad_k, 
-                                  ad_old, pcx, cur, blk >>
+                                  ad_old, cg_t, cg_mclass, cg_mfree, cg_cclass, 
+                                  cg_cop, cg_prev, cg_done, cg_fetched, cg_h, 
+                                  cg_v, cg_next, cg_ok, cg_seen, ac_id, 
+                                  ac_mclass, ac_mfree, ac_cclass, ac_cop, ac_i, 
+                                  ac_done, pcx, cur, blk >>
 
 gl_lower_r(self) == /\ pc[self] = "gl_lower_r"
                     /\ IF rv[self].ok
@@ -4126,8 +4481,12 @@ gl_lower_r(self) == /\ pc[self] = "gl_lower_r"
                                     dl_oldclass, ag_order, ag_class, ag_local, 
                                     ag_frame, ag_len, ag_start, ag_near, 
                                     ag_done, ap_frame, ap_order, ap_class, 
-                                    ap_local, ad_c, ad_k, ad_old, pcx, cur, 
-                                    blk >>
+                                    ap_local, ad_c, ad_k, ad_old, cg_t, 
+                                    cg_mclass, cg_mfree, cg_cclass, cg_cop, 
+                                    cg_prev, cg_done, cg_fetched, cg_h, cg_v, 
+                                    cg_next, cg_ok, cg_seen, ac_id, ac_mclass, 
+                                    ac_mfree, ac_cclass, ac_cop, ac_i, ac_done, 
+                                    pcx, cur, blk >>
 
 gl_ok(self) == /\ pc[self] = "gl_ok"
                /\ rv' = [rv EXCEPT ![self] = [ok |-> TRUE, frame |-> gl_got[self], class |-> gl_class[self], err |-> "", tree |-> -1]]
@@ -4167,8 +4526,11 @@ gl_ok(self) == /\ pc[self] = "gl_ok"
                                dl_found, dl_new, dl_old, dl_jj, dl_oldclass, 
                                ag_order, ag_class, ag_local, ag_frame, ag_len, 
                                ag_start, ag_near, ag_done, ap_frame, ap_order, 
-                               ap_class, ap_local, ad_c, ad_k, ad_old, pcx, 
-                               cur, blk >>
+                               ap_class, ap_local, ad_c, ad_k, ad_old, cg_t, 
+                               cg_mclass, cg_mfree, cg_cclass, cg_cop, cg_prev, 
+                               cg_done, cg_fetched, cg_h, cg_v, cg_next, cg_ok, 
+                               cg_seen, ac_id, ac_mclass, ac_mfree, ac_cclass, 
+                               ac_cop, ac_i, ac_done, pcx, cur, blk >>
 
 gl_undo_r(self) == /\ pc[self] = "gl_undo_r"
                    /\ rv' = [rv EXCEPT ![self] = [ok |-> FALSE, frame |-> -1, class |-> -1, err |-> "mem", tree |-> TreeOfRow(gl_row[self])]]
@@ -4211,7 +4573,12 @@ gl_undo_r(self) == /\ pc[self] = "gl_undo_r"
                                    dl_oldclass, ag_order, ag_class, ag_local, 
                                    ag_frame, ag_len, ag_start, ag_near, 
                                    ag_done, ap_frame, ap_order, ap_class, 
-                                   ap_local, ad_c, ad_k, ad_old, pcx, cur, blk >>
+                                   ap_local, ad_c, ad_k, ad_old, cg_t, 
+                                   cg_mclass, cg_mfree, cg_cclass, cg_cop, 
+                                   cg_prev, cg_done, cg_fetched, cg_h, cg_v, 
+                                   cg_next, cg_ok, cg_seen, ac_id, ac_mclass, 
+                                   ac_mfree, ac_cclass, ac_cop, ac_i, ac_done, 
+                                   pcx, cur, blk >>
 
 Lbl_4(self) == /\ pc[self] = "Lbl_4"
                /\ pc' = [pc EXCEPT ![self] = Head(stack[self]).pc]
@@ -4250,8 +4617,11 @@ Lbl_4(self) == /\ pc[self] = "Lbl_4"
                                dl_found, dl_new, dl_old, dl_jj, dl_oldclass, 
                                ag_order, ag_class, ag_local, ag_frame, ag_len, 
                                ag_start, ag_near, ag_done, ap_frame, ap_order, 
-                               ap_class, ap_local, ad_c, ad_k, ad_old, pcx, 
-                               cur, blk >>
+                               ap_class, ap_local, ad_c, ad_k, ad_old, cg_t, 
+                               cg_mclass, cg_mfree, cg_cclass, cg_cop, cg_prev, 
+                               cg_done, cg_fetched, cg_h, cg_v, cg_next, cg_ok, 
+                               cg_seen, ac_id, ac_mclass, ac_mfree, ac_cclass, 
+                               ac_cop, ac_i, ac_done, pcx, cur, blk >>
 
 gl_fail(self) == /\ pc[self] = "gl_fail"
                  /\ rv' = [rv EXCEPT ![self] = [ok |-> FALSE, frame |-> -1, class |-> -1, err |-> "mem", tree |-> TreeOfRow(gl_res[self].row)]]
@@ -4293,7 +4663,12 @@ gl_fail(self) == /\ pc[self] = "gl_fail"
                                  dl_oldclass, ag_order, ag_class, ag_local, 
                                  ag_frame, ag_len, ag_start, ag_near, ag_done, 
                                  ap_frame, ap_order, ap_class, ap_local, ad_c, 
-                                 ad_k, ad_old, pcx, cur, blk >>
+                                 ad_k, ad_old, cg_t, cg_mclass, cg_mfree, 
+                                 cg_cclass, cg_cop, cg_prev, cg_done, 
+                                 cg_fetched, cg_h, cg_v, cg_next, cg_ok, 
+                                 cg_seen, ac_id, ac_mclass, ac_mfree, 
+                                 ac_cclass, ac_cop, ac_i, ac_done, pcx, cur, 
+                                 blk >>
 
 gl_sync_r(self) == /\ pc[self] = "gl_sync_r"
                    /\ IF rv[self].ok
@@ -4350,8 +4725,12 @@ gl_sync_r(self) == /\ pc[self] = "gl_sync_r"
                                    dl_jj, dl_oldclass, ag_order, ag_class, 
                                    ag_local, ag_frame, ag_len, ag_start, 
                                    ag_near, ag_done, ap_frame, ap_order, 
-                                   ap_class, ap_local, ad_c, ad_k, ad_old, pcx, 
-                                   cur, blk >>
+                                   ap_class, ap_local, ad_c, ad_k, ad_old, 
+                                   cg_t, cg_mclass, cg_mfree, cg_cclass, 
+                                   cg_cop, cg_prev, cg_done, cg_fetched, cg_h, 
+                                   cg_v, cg_next, cg_ok, cg_seen, ac_id, 
+                                   ac_mclass, ac_mfree, ac_cclass, ac_cop, 
+                                   ac_i, ac_done, pcx, cur, blk >>
 
 gl_sput_r(self) == /\ pc[self] = "gl_sput_r"
                    /\ IF rv[self].ok
@@ -4417,7 +4796,12 @@ gl_sput_r(self) == /\ pc[self] = "gl_sput_r"
                                    ag_order, ag_class, ag_local, ag_frame, 
                                    ag_len, ag_start, ag_near, ag_done, 
                                    ap_frame, ap_order, ap_class, ap_local, 
-                                   ad_c, ad_k, ad_old, pcx, cur, blk >>
+                                   ad_c, ad_k, ad_old, cg_t, cg_mclass, 
+                                   cg_mfree, cg_cclass, cg_cop, cg_prev, 
+                                   cg_done, cg_fetched, cg_h, cg_v, cg_next, 
+                                   cg_ok, cg_seen, ac_id, ac_mclass, ac_mfree, 
+                                   ac_cclass, ac_cop, ac_i, ac_done, pcx, cur, 
+                                   blk >>
 
 gl_retry_r(self) == /\ pc[self] = "gl_retry_r"
                     /\ pc' = [pc EXCEPT ![self] = Head(stack[self]).pc]
@@ -4459,8 +4843,12 @@ gl_retry_r(self) == /\ pc[self] = "gl_retry_r"
                                     dl_oldclass, ag_order, ag_class, ag_local, 
                                     ag_frame, ag_len, ag_start, ag_near, 
                                     ag_done, ap_frame, ap_order, ap_class, 
-                                    ap_local, ad_c, ad_k, ad_old, pcx, cur, 
-                                    blk >>
+                                    ap_local, ad_c, ad_k, ad_old, cg_t, 
+                                    cg_mclass, cg_mfree, cg_cclass, cg_cop, 
+                                    cg_prev, cg_done, cg_fetched, cg_h, cg_v, 
+                                    cg_next, cg_ok, cg_seen, ac_id, ac_mclass, 
+                                    ac_mfree, ac_cclass, ac_cop, ac_i, ac_done, 
+                                    pcx, cur, blk >>
 
 get_local(self) == gl_begin(self) \/ gl_get_r(self) \/ gl_lower_r(self)
                       \/ gl_ok(self) \/ gl_undo_r(self) \/ Lbl_4(self)
@@ -4516,7 +4904,12 @@ sg_begin(self) == /\ pc[self] = "sg_begin"
                                   dl_oldclass, ag_order, ag_class, ag_local, 
                                   ag_frame, ag_len, ag_start, ag_near, ag_done, 
                                   ap_frame, ap_order, ap_class, ap_local, ad_c, 
-                                  ad_k, ad_old, pcx, cur, blk >>
+                                  ad_k, ad_old, cg_t, cg_mclass, cg_mfree, 
+                                  cg_cclass, cg_cop, cg_prev, cg_done, 
+                                  cg_fetched, cg_h, cg_v, cg_next, cg_ok, 
+                                  cg_seen, ac_id, ac_mclass, ac_mfree, 
+                                  ac_cclass, ac_cop, ac_i, ac_done, pcx, cur, 
+                                  blk >>
 
 sg_steal_r(self) == /\ pc[self] = "sg_steal_r"
                     /\ IF rv[self].ok
@@ -4604,8 +4997,12 @@ sg_steal_r(self) == /\ pc[self] = "sg_steal_r"
                                     dl_oldclass, ag_order, ag_class, ag_local, 
                                     ag_frame, ag_len, ag_start, ag_near, 
                                     ag_done, ap_frame, ap_order, ap_class, 
-                                    ap_local, ad_c, ad_k, ad_old, pcx, cur, 
-                                    blk >>
+                                    ap_local, ad_c, ad_k, ad_old, cg_t, 
+                                    cg_mclass, cg_mfree, cg_cclass, cg_cop, 
+                                    cg_prev, cg_done, cg_fetched, cg_h, cg_v, 
+                                    cg_next, cg_ok, cg_seen, ac_id, ac_mclass, 
+                                    ac_mfree, ac_cclass, ac_cop, ac_i, ac_done, 
+                                    pcx, cur, blk >>
 
 sg_lower_r(self) == /\ pc[self] = "sg_lower_r"
                     /\ IF rv[self].ok
@@ -4657,8 +5054,12 @@ sg_lower_r(self) == /\ pc[self] = "sg_lower_r"
                                     dl_oldclass, ag_order, ag_class, ag_local, 
                                     ag_frame, ag_len, ag_start, ag_near, 
                                     ag_done, ap_frame, ap_order, ap_class, 
-                                    ap_local, ad_c, ad_k, ad_old, pcx, cur, 
-                                    blk >>
+                                    ap_local, ad_c, ad_k, ad_old, cg_t, 
+                                    cg_mclass, cg_mfree, cg_cclass, cg_cop, 
+                                    cg_prev, cg_done, cg_fetched, cg_h, cg_v, 
+                                    cg_next, cg_ok, cg_seen, ac_id, ac_mclass, 
+                                    ac_mfree, ac_cclass, ac_cop, ac_i, ac_done, 
+                                    pcx, cur, blk >>
 
 sg_undo_r(self) == /\ pc[self] = "sg_undo_r"
                    /\ rv' = [rv EXCEPT ![self] = [ok |-> FALSE, frame |-> -1, class |-> -1, err |-> "mem"]]
@@ -4698,7 +5099,12 @@ sg_undo_r(self) == /\ pc[self] = "sg_undo_r"
                                    ag_order, ag_class, ag_local, ag_frame, 
                                    ag_len, ag_start, ag_near, ag_done, 
                                    ap_frame, ap_order, ap_class, ap_local, 
-                                   ad_c, ad_k, ad_old, pcx, cur, blk >>
+                                   ad_c, ad_k, ad_old, cg_t, cg_mclass, 
+                                   cg_mfree, cg_cclass, cg_cop, cg_prev, 
+                                   cg_done, cg_fetched, cg_h, cg_v, cg_next, 
+                                   cg_ok, cg_seen, ac_id, ac_mclass, ac_mfree, 
+                                   ac_cclass, ac_cop, ac_i, ac_done, pcx, cur, 
+                                   blk >>
 
 steal_global(self) == sg_begin(self) \/ sg_steal_r(self)
                          \/ sg_lower_r(self) \/ sg_undo_r(self)
@@ -4752,7 +5158,12 @@ rs_begin(self) == /\ pc[self] = "rs_begin"
                                   dl_oldclass, ag_order, ag_class, ag_local, 
                                   ag_frame, ag_len, ag_start, ag_near, ag_done, 
                                   ap_frame, ap_order, ap_class, ap_local, ad_c, 
-                                  ad_k, ad_old, pcx, cur, blk >>
+                                  ad_k, ad_old, cg_t, cg_mclass, cg_mfree, 
+                                  cg_cclass, cg_cop, cg_prev, cg_done, 
+                                  cg_fetched, cg_h, cg_v, cg_next, cg_ok, 
+                                  cg_seen, ac_id, ac_mclass, ac_mfree, 
+                                  ac_cclass, ac_cop, ac_i, ac_done, pcx, cur, 
+                                  blk >>
 
 rs_ros_r(self) == /\ pc[self] = "rs_ros_r"
                   /\ IF rv[self].ok
@@ -4825,7 +5236,12 @@ rs_ros_r(self) == /\ pc[self] = "rs_ros_r"
                                   dl_oldclass, ag_order, ag_class, ag_local, 
                                   ag_frame, ag_len, ag_start, ag_near, ag_done, 
                                   ap_frame, ap_order, ap_class, ap_local, ad_c, 
-                                  ad_k, ad_old, pcx, cur, blk >>
+                                  ad_k, ad_old, cg_t, cg_mclass, cg_mfree, 
+                                  cg_cclass, cg_cop, cg_prev, cg_done, 
+                                  cg_fetched, cg_h, cg_v, cg_next, cg_ok, 
+                                  cg_seen, ac_id, ac_mclass, ac_mfree, 
+                                  ac_cclass, ac_cop, ac_i, ac_done, pcx, cur, 
+                                  blk >>
 
 rs_lower_r(self) == /\ pc[self] = "rs_lower_r"
                     /\ IF rv[self].ok
@@ -4897,8 +5313,12 @@ rs_lower_r(self) == /\ pc[self] = "rs_lower_r"
                                     dl_oldclass, ag_order, ag_class, ag_local, 
                                     ag_frame, ag_len, ag_start, ag_near, 
                                     ag_done, ap_frame, ap_order, ap_class, 
-                                    ap_local, ad_c, ad_k, ad_old, pcx, cur, 
-                                    blk >>
+                                    ap_local, ad_c, ad_k, ad_old, cg_t, 
+                                    cg_mclass, cg_mfree, cg_cclass, cg_cop, 
+                                    cg_prev, cg_done, cg_fetched, cg_h, cg_v, 
+                                    cg_next, cg_ok, cg_seen, ac_id, ac_mclass, 
+                                    ac_mfree, ac_cclass, ac_cop, ac_i, ac_done, 
+                                    pcx, cur, blk >>
 
 rs_ok(self) == /\ pc[self] = "rs_ok"
                /\ rv' = [rv EXCEPT ![self] = [ok |-> TRUE, frame |-> rs_frame[self], class |-> rs_tc[self], err |-> ""]]
@@ -4939,7 +5359,11 @@ rs_ok(self) == /\ pc[self] = "rs_ok"
                                dl_oldclass, ag_order, ag_class, ag_local, 
                                ag_frame, ag_len, ag_start, ag_near, ag_done, 
                                ap_frame, ap_order, ap_class, ap_local, ad_c, 
-                               ad_k, ad_old, pcx, cur, blk >>
+                               ad_k, ad_old, cg_t, cg_mclass, cg_mfree, 
+                               cg_cclass, cg_cop, cg_prev, cg_done, cg_fetched, 
+                               cg_h, cg_v, cg_next, cg_ok, cg_seen, ac_id, 
+                               ac_mclass, ac_mfree, ac_cclass, ac_cop, ac_i, 
+                               ac_done, pcx, cur, blk >>
 
 rs_fail(self) == /\ pc[self] = "rs_fail"
                  /\ rv' = [rv EXCEPT ![self] = [ok |-> FALSE, frame |-> -1, class |-> -1, err |-> "mem"]]
@@ -4981,7 +5405,11 @@ rs_fail(self) == /\ pc[self] = "rs_fail"
                                  ag_order, ag_class, ag_local, ag_frame, 
                                  ag_len, ag_start, ag_near, ag_done, ap_frame, 
                                  ap_order, ap_class, ap_local, ad_c, ad_k, 
-                                 ad_old, pcx, cur, blk >>
+                                 ad_old, cg_t, cg_mclass, cg_mfree, cg_cclass, 
+                                 cg_cop, cg_prev, cg_done, cg_fetched, cg_h, 
+                                 cg_v, cg_next, cg_ok, cg_seen, ac_id, 
+                                 ac_mclass, ac_mfree, ac_cclass, ac_cop, ac_i, 
+                                 ac_done, pcx, cur, blk >>
 
 rs_swap(self) == /\ pc[self] = "rs_swap"
                  /\ rs_old' = [rs_old EXCEPT ![self] = mem[Slot(rs_tc[self], rs_local[self] % NSlots(rs_tc[self]))]]
@@ -5029,7 +5457,12 @@ rs_swap(self) == /\ pc[self] = "rs_swap"
                                  dl_oldclass, ag_order, ag_class, ag_local, 
                                  ag_frame, ag_len, ag_start, ag_near, ag_done, 
                                  ap_frame, ap_order, ap_class, ap_local, ad_c, 
-                                 ad_k, ad_old, pcx, cur, blk >>
+                                 ad_k, ad_old, cg_t, cg_mclass, cg_mfree, 
+                                 cg_cclass, cg_cop, cg_prev, cg_done, 
+                                 cg_fetched, cg_h, cg_v, cg_next, cg_ok, 
+                                 cg_seen, ac_id, ac_mclass, ac_mfree, 
+                                 ac_cclass, ac_cop, ac_i, ac_done, pcx, cur, 
+                                 blk >>
 
 reserve_or_steal(self) == rs_begin(self) \/ rs_ros_r(self)
                              \/ rs_lower_r(self) \/ rs_ok(self)
@@ -5069,7 +5502,11 @@ sb_begin(self) == /\ pc[self] = "sb_begin"
                                   ag_class, ag_local, ag_frame, ag_len, 
                                   ag_start, ag_near, ag_done, ap_frame, 
                                   ap_order, ap_class, ap_local, ad_c, ad_k, 
-                                  ad_old, pcx, cur, blk >>
+                                  ad_old, cg_t, cg_mclass, cg_mfree, cg_cclass, 
+                                  cg_cop, cg_prev, cg_done, cg_fetched, cg_h, 
+                                  cg_v, cg_next, cg_ok, cg_seen, ac_id, 
+                                  ac_mclass, ac_mfree, ac_cclass, ac_cop, ac_i, 
+                                  ac_done, pcx, cur, blk >>
 
 sb_scan(self) == /\ pc[self] = "sb_scan"
                  /\ IF sb_i[self] < sb_len[self] /\ ~sb_done[self]
@@ -5118,7 +5555,12 @@ sb_scan(self) == /\ pc[self] = "sb_scan"
                                  dl_oldclass, ag_order, ag_class, ag_local, 
                                  ag_frame, ag_len, ag_start, ag_near, ag_done, 
                                  ap_frame, ap_order, ap_class, ap_local, ad_c, 
-                                 ad_k, ad_old, pcx, cur, blk >>
+                                 ad_k, ad_old, cg_t, cg_mclass, cg_mfree, 
+                                 cg_cclass, cg_cop, cg_prev, cg_done, 
+                                 cg_fetched, cg_h, cg_v, cg_next, cg_ok, 
+                                 cg_seen, ac_id, ac_mclass, ac_mfree, 
+                                 ac_cclass, ac_cop, ac_i, ac_done, pcx, cur, 
+                                 blk >>
 
 Lbl_7(self) == /\ pc[self] = "Lbl_7"
                /\ IF sb_p[self] = Perfect
@@ -5199,8 +5641,11 @@ Lbl_7(self) == /\ pc[self] = "Lbl_7"
                                dl_found, dl_new, dl_old, dl_jj, dl_oldclass, 
                                ag_order, ag_class, ag_local, ag_frame, ag_len, 
                                ag_start, ag_near, ag_done, ap_frame, ap_order, 
-                               ap_class, ap_local, ad_c, ad_k, ad_old, pcx, 
-                               cur, blk >>
+                               ap_class, ap_local, ad_c, ad_k, ad_old, cg_t, 
+                               cg_mclass, cg_mfree, cg_cclass, cg_cop, cg_prev, 
+                               cg_done, cg_fetched, cg_h, cg_v, cg_next, cg_ok, 
+                               cg_seen, ac_id, ac_mclass, ac_mfree, ac_cclass, 
+                               ac_cop, ac_i, ac_done, pcx, cur, blk >>
 
 sb_scan_r(self) == /\ pc[self] = "sb_scan_r"
                    /\ IF rv[self].ok
@@ -5238,7 +5683,12 @@ sb_scan_r(self) == /\ pc[self] = "sb_scan_r"
                                    ag_order, ag_class, ag_local, ag_frame, 
                                    ag_len, ag_start, ag_near, ag_done, 
                                    ap_frame, ap_order, ap_class, ap_local, 
-                                   ad_c, ad_k, ad_old, pcx, cur, blk >>
+                                   ad_c, ad_k, ad_old, cg_t, cg_mclass, 
+                                   cg_mfree, cg_cclass, cg_cop, cg_prev, 
+                                   cg_done, cg_fetched, cg_h, cg_v, cg_next, 
+                                   cg_ok, cg_seen, ac_id, ac_mclass, ac_mfree, 
+                                   ac_cclass, ac_cop, ac_i, ac_done, pcx, cur, 
+                                   blk >>
 
 Lbl_5(self) == /\ pc[self] = "Lbl_5"
                /\ sb_p' = [sb_p EXCEPT ![self] = IF sb_p[self].kind = "match" THEN sb_p[self]
@@ -5271,7 +5721,11 @@ Lbl_5(self) == /\ pc[self] = "Lbl_5"
                                dl_new, dl_old, dl_jj, dl_oldclass, ag_order, 
                                ag_class, ag_local, ag_frame, ag_len, ag_start, 
                                ag_near, ag_done, ap_frame, ap_order, ap_class, 
-                               ap_local, ad_c, ad_k, ad_old, pcx, cur, blk >>
+                               ap_local, ad_c, ad_k, ad_old, cg_t, cg_mclass, 
+                               cg_mfree, cg_cclass, cg_cop, cg_prev, cg_done, 
+                               cg_fetched, cg_h, cg_v, cg_next, cg_ok, cg_seen, 
+                               ac_id, ac_mclass, ac_mfree, ac_cclass, ac_cop, 
+                               ac_i, ac_done, pcx, cur, blk >>
 
 Lbl_6(self) == /\ pc[self] = "Lbl_6"
                /\ sb_p' = [sb_p EXCEPT ![self] = IF sb_p[self].kind = "match" THEN Perfect
@@ -5304,7 +5758,11 @@ Lbl_6(self) == /\ pc[self] = "Lbl_6"
                                dl_new, dl_old, dl_jj, dl_oldclass, ag_order, 
                                ag_class, ag_local, ag_frame, ag_len, ag_start, 
                                ag_near, ag_done, ap_frame, ap_order, ap_class, 
-                               ap_local, ad_c, ad_k, ad_old, pcx, cur, blk >>
+                               ap_local, ad_c, ad_k, ad_old, cg_t, cg_mclass, 
+                               cg_mfree, cg_cclass, cg_cop, cg_prev, cg_done, 
+                               cg_fetched, cg_h, cg_v, cg_next, cg_ok, cg_seen, 
+                               ac_id, ac_mclass, ac_mfree, ac_cclass, ac_cop, 
+                               ac_i, ac_done, pcx, cur, blk >>
 
 sb_try(self) == /\ pc[self] = "sb_try"
                 /\ IF sb_k[self] >= 1 /\ ~sb_done[self]
@@ -5381,7 +5839,11 @@ sb_try(self) == /\ pc[self] = "sb_try"
                                 dl_oldclass, ag_order, ag_class, ag_local, 
                                 ag_frame, ag_len, ag_start, ag_near, ag_done, 
                                 ap_frame, ap_order, ap_class, ap_local, ad_c, 
-                                ad_k, ad_old, pcx, cur, blk >>
+                                ad_k, ad_old, cg_t, cg_mclass, cg_mfree, 
+                                cg_cclass, cg_cop, cg_prev, cg_done, 
+                                cg_fetched, cg_h, cg_v, cg_next, cg_ok, 
+                                cg_seen, ac_id, ac_mclass, ac_mfree, ac_cclass, 
+                                ac_cop, ac_i, ac_done, pcx, cur, blk >>
 
 sb_try_r(self) == /\ pc[self] = "sb_try_r"
                   /\ IF rv[self].ok
@@ -5419,7 +5881,11 @@ sb_try_r(self) == /\ pc[self] = "sb_try_r"
                                   ag_order, ag_class, ag_local, ag_frame, 
                                   ag_len, ag_start, ag_near, ag_done, ap_frame, 
                                   ap_order, ap_class, ap_local, ad_c, ad_k, 
-                                  ad_old, pcx, cur, blk >>
+                                  ad_old, cg_t, cg_mclass, cg_mfree, cg_cclass, 
+                                  cg_cop, cg_prev, cg_done, cg_fetched, cg_h, 
+                                  cg_v, cg_next, cg_ok, cg_seen, ac_id, 
+                                  ac_mclass, ac_mfree, ac_cclass, ac_cop, ac_i, 
+                                  ac_done, pcx, cur, blk >>
 
 sb_ret(self) == /\ pc[self] = "sb_ret"
                 /\ IF ~sb_done[self]
@@ -5468,7 +5934,11 @@ sb_ret(self) == /\ pc[self] = "sb_ret"
                                 dl_jj, dl_oldclass, ag_order, ag_class, 
                                 ag_local, ag_frame, ag_len, ag_start, ag_near, 
                                 ag_done, ap_frame, ap_order, ap_class, 
-                                ap_local, ad_c, ad_k, ad_old, pcx, cur, blk >>
+                                ap_local, ad_c, ad_k, ad_old, cg_t, cg_mclass, 
+                                cg_mfree, cg_cclass, cg_cop, cg_prev, cg_done, 
+                                cg_fetched, cg_h, cg_v, cg_next, cg_ok, 
+                                cg_seen, ac_id, ac_mclass, ac_mfree, ac_cclass, 
+                                ac_cop, ac_i, ac_done, pcx, cur, blk >>
 
 search_best(self) == sb_begin(self) \/ sb_scan(self) \/ Lbl_7(self)
                         \/ sb_scan_r(self) \/ Lbl_5(self) \/ Lbl_6(self)
@@ -5507,7 +5977,11 @@ sl_begin(self) == /\ pc[self] = "sl_begin"
                                   ag_class, ag_local, ag_frame, ag_len, 
                                   ag_start, ag_near, ag_done, ap_frame, 
                                   ap_order, ap_class, ap_local, ad_c, ad_k, 
-                                  ad_old, pcx, cur, blk >>
+                                  ad_old, cg_t, cg_mclass, cg_mfree, cg_cclass, 
+                                  cg_cop, cg_prev, cg_done, cg_fetched, cg_h, 
+                                  cg_v, cg_next, cg_ok, cg_seen, ac_id, 
+                                  ac_mclass, ac_mfree, ac_cclass, ac_cop, ac_i, 
+                                  ac_done, pcx, cur, blk >>
 
 sl_classes(self) == /\ pc[self] = "sl_classes"
                     /\ IF sl_i[self] < 8 /\ ~sl_found[self]
@@ -5626,7 +6100,12 @@ sl_classes(self) == /\ pc[self] = "sl_classes"
                                     ag_order, ag_class, ag_local, ag_frame, 
                                     ag_len, ag_start, ag_near, ag_done, 
                                     ap_frame, ap_order, ap_class, ap_local, 
-                                    ad_c, ad_k, ad_old, pcx, cur, blk >>
+                                    ad_c, ad_k, ad_old, cg_t, cg_mclass, 
+                                    cg_mfree, cg_cclass, cg_cop, cg_prev, 
+                                    cg_done, cg_fetched, cg_h, cg_v, cg_next, 
+                                    cg_ok, cg_seen, ac_id, ac_mclass, ac_mfree, 
+                                    ac_cclass, ac_cop, ac_i, ac_done, pcx, cur, 
+                                    blk >>
 
 sl_slots(self) == /\ pc[self] = "sl_slots"
                   /\ IF sl_j[self] < NSlots(sl_tc[self]) /\ ~sl_found[self]
@@ -5683,7 +6162,11 @@ sl_slots(self) == /\ pc[self] = "sl_slots"
                                   ag_order, ag_class, ag_local, ag_frame, 
                                   ag_len, ag_start, ag_near, ag_done, ap_frame, 
                                   ap_order, ap_class, ap_local, ad_c, ad_k, 
-                                  ad_old, pcx, cur, blk >>
+                                  ad_old, cg_t, cg_mclass, cg_mfree, cg_cclass, 
+                                  cg_cop, cg_prev, cg_done, cg_fetched, cg_h, 
+                                  cg_v, cg_next, cg_ok, cg_seen, ac_id, 
+                                  ac_mclass, ac_mfree, ac_cclass, ac_cop, ac_i, 
+                                  ac_done, pcx, cur, blk >>
 
 sl_slots_r(self) == /\ pc[self] = "sl_slots_r"
                     /\ IF rv[self].ok
@@ -5723,8 +6206,12 @@ sl_slots_r(self) == /\ pc[self] = "sl_slots_r"
                                     dl_oldclass, ag_order, ag_class, ag_local, 
                                     ag_frame, ag_len, ag_start, ag_near, 
                                     ag_done, ap_frame, ap_order, ap_class, 
-                                    ap_local, ad_c, ad_k, ad_old, pcx, cur, 
-                                    blk >>
+                                    ap_local, ad_c, ad_k, ad_old, cg_t, 
+                                    cg_mclass, cg_mfree, cg_cclass, cg_cop, 
+                                    cg_prev, cg_done, cg_fetched, cg_h, cg_v, 
+                                    cg_next, cg_ok, cg_seen, ac_id, ac_mclass, 
+                                    ac_mfree, ac_cclass, ac_cop, ac_i, ac_done, 
+                                    pcx, cur, blk >>
 
 sl_next(self) == /\ pc[self] = "sl_next"
                  /\ IF ~sl_found[self]
@@ -5761,7 +6248,11 @@ sl_next(self) == /\ pc[self] = "sl_next"
                                  ag_class, ag_local, ag_frame, ag_len, 
                                  ag_start, ag_near, ag_done, ap_frame, 
                                  ap_order, ap_class, ap_local, ad_c, ad_k, 
-                                 ad_old, pcx, cur, blk >>
+                                 ad_old, cg_t, cg_mclass, cg_mfree, cg_cclass, 
+                                 cg_cop, cg_prev, cg_done, cg_fetched, cg_h, 
+                                 cg_v, cg_next, cg_ok, cg_seen, ac_id, 
+                                 ac_mclass, ac_mfree, ac_cclass, ac_cop, ac_i, 
+                                 ac_done, pcx, cur, blk >>
 
 sl_lower_r(self) == /\ pc[self] = "sl_lower_r"
                     /\ IF rv[self].ok
@@ -5818,8 +6309,12 @@ sl_lower_r(self) == /\ pc[self] = "sl_lower_r"
                                     dl_oldclass, ag_order, ag_class, ag_local, 
                                     ag_frame, ag_len, ag_start, ag_near, 
                                     ag_done, ap_frame, ap_order, ap_class, 
-                                    ap_local, ad_c, ad_k, ad_old, pcx, cur, 
-                                    blk >>
+                                    ap_local, ad_c, ad_k, ad_old, cg_t, 
+                                    cg_mclass, cg_mfree, cg_cclass, cg_cop, 
+                                    cg_prev, cg_done, cg_fetched, cg_h, cg_v, 
+                                    cg_next, cg_ok, cg_seen, ac_id, ac_mclass, 
+                                    ac_mfree, ac_cclass, ac_cop, ac_i, ac_done, 
+                                    pcx, cur, blk >>
 
 sl_undo_r(self) == /\ pc[self] = "sl_undo_r"
                    /\ rv' = [rv EXCEPT ![self] = [ok |-> FALSE, frame |-> -1, class |-> -1, err |-> "mem"]]
@@ -5863,7 +6358,12 @@ sl_undo_r(self) == /\ pc[self] = "sl_undo_r"
                                    ag_order, ag_class, ag_local, ag_frame, 
                                    ag_len, ag_start, ag_near, ag_done, 
                                    ap_frame, ap_order, ap_class, ap_local, 
-                                   ad_c, ad_k, ad_old, pcx, cur, blk >>
+                                   ad_c, ad_k, ad_old, cg_t, cg_mclass, 
+                                   cg_mfree, cg_cclass, cg_cop, cg_prev, 
+                                   cg_done, cg_fetched, cg_h, cg_v, cg_next, 
+                                   cg_ok, cg_seen, ac_id, ac_mclass, ac_mfree, 
+                                   ac_cclass, ac_cop, ac_i, ac_done, pcx, cur, 
+                                   blk >>
 
 steal_local(self) == sl_begin(self) \/ sl_classes(self) \/ sl_slots(self)
                         \/ sl_slots_r(self) \/ sl_next(self)
@@ -5906,7 +6406,11 @@ dl_begin(self) == /\ pc[self] = "dl_begin"
                                   ag_class, ag_local, ag_frame, ag_len, 
                                   ag_start, ag_near, ag_done, ap_frame, 
                                   ap_order, ap_class, ap_local, ad_c, ad_k, 
-                                  ad_old, pcx, cur, blk >>
+                                  ad_old, cg_t, cg_mclass, cg_mfree, cg_cclass, 
+                                  cg_cop, cg_prev, cg_done, cg_fetched, cg_h, 
+                                  cg_v, cg_next, cg_ok, cg_seen, ac_id, 
+                                  ac_mclass, ac_mfree, ac_cclass, ac_cop, ac_i, 
+                                  ac_done, pcx, cur, blk >>
 
 Lbl_8(self) == /\ pc[self] = "Lbl_8"
                /\ pc' = [pc EXCEPT ![self] = Head(stack[self]).pc]
@@ -5948,7 +6452,11 @@ Lbl_8(self) == /\ pc[self] = "Lbl_8"
                                sl_tc, sl_j, sl_found, sl_row, sl_jj, ag_order, 
                                ag_class, ag_local, ag_frame, ag_len, ag_start, 
                                ag_near, ag_done, ap_frame, ap_order, ap_class, 
-                               ap_local, ad_c, ad_k, ad_old, pcx, cur, blk >>
+                               ap_local, ad_c, ad_k, ad_old, cg_t, cg_mclass, 
+                               cg_mfree, cg_cclass, cg_cop, cg_prev, cg_done, 
+                               cg_fetched, cg_h, cg_v, cg_next, cg_ok, cg_seen, 
+                               ac_id, ac_mclass, ac_mfree, ac_cclass, ac_cop, 
+                               ac_i, ac_done, pcx, cur, blk >>
 
 dl_classes(self) == /\ pc[self] = "dl_classes"
                     /\ IF dl_i[self] < 8 /\ ~dl_found[self]
@@ -6019,7 +6527,12 @@ dl_classes(self) == /\ pc[self] = "dl_classes"
                                     ag_order, ag_class, ag_local, ag_frame, 
                                     ag_len, ag_start, ag_near, ag_done, 
                                     ap_frame, ap_order, ap_class, ap_local, 
-                                    ad_c, ad_k, ad_old, pcx, cur, blk >>
+                                    ad_c, ad_k, ad_old, cg_t, cg_mclass, 
+                                    cg_mfree, cg_cclass, cg_cop, cg_prev, 
+                                    cg_done, cg_fetched, cg_h, cg_v, cg_next, 
+                                    cg_ok, cg_seen, ac_id, ac_mclass, ac_mfree, 
+                                    ac_cclass, ac_cop, ac_i, ac_done, pcx, cur, 
+                                    blk >>
 
 dl_slots(self) == /\ pc[self] = "dl_slots"
                   /\ IF dl_j[self] < NSlots(dl_tc[self]) /\ ~dl_found[self]
@@ -6076,7 +6589,11 @@ dl_slots(self) == /\ pc[self] = "dl_slots"
                                   ag_order, ag_class, ag_local, ag_frame, 
                                   ag_len, ag_start, ag_near, ag_done, ap_frame, 
                                   ap_order, ap_class, ap_local, ad_c, ad_k, 
-                                  ad_old, pcx, cur, blk >>
+                                  ad_old, cg_t, cg_mclass, cg_mfree, cg_cclass, 
+                                  cg_cop, cg_prev, cg_done, cg_fetched, cg_h, 
+                                  cg_v, cg_next, cg_ok, cg_seen, ac_id, 
+                                  ac_mclass, ac_mfree, ac_cclass, ac_cop, ac_i, 
+                                  ac_done, pcx, cur, blk >>
 
 dl_slots_r(self) == /\ pc[self] = "dl_slots_r"
                     /\ IF rv[self].ok
@@ -6116,7 +6633,12 @@ dl_slots_r(self) == /\ pc[self] = "dl_slots_r"
                                     ag_order, ag_class, ag_local, ag_frame, 
                                     ag_len, ag_start, ag_near, ag_done, 
                                     ap_frame, ap_order, ap_class, ap_local, 
-                                    ad_c, ad_k, ad_old, pcx, cur, blk >>
+                                    ad_c, ad_k, ad_old, cg_t, cg_mclass, 
+                                    cg_mfree, cg_cclass, cg_cop, cg_prev, 
+                                    cg_done, cg_fetched, cg_h, cg_v, cg_next, 
+                                    cg_ok, cg_seen, ac_id, ac_mclass, ac_mfree, 
+                                    ac_cclass, ac_cop, ac_i, ac_done, pcx, cur, 
+                                    blk >>
 
 dl_next(self) == /\ pc[self] = "dl_next"
                  /\ IF ~dl_found[self]
@@ -6153,7 +6675,11 @@ dl_next(self) == /\ pc[self] = "dl_next"
                                  ag_class, ag_local, ag_frame, ag_len, 
                                  ag_start, ag_near, ag_done, ap_frame, 
                                  ap_order, ap_class, ap_local, ad_c, ad_k, 
-                                 ad_old, pcx, cur, blk >>
+                                 ad_old, cg_t, cg_mclass, cg_mfree, cg_cclass, 
+                                 cg_cop, cg_prev, cg_done, cg_fetched, cg_h, 
+                                 cg_v, cg_next, cg_ok, cg_seen, ac_id, 
+                                 ac_mclass, ac_mfree, ac_cclass, ac_cop, ac_i, 
+                                 ac_done, pcx, cur, blk >>
 
 dl_unres(self) == /\ pc[self] = "dl_unres"
                   /\ IF dl_old[self].present
@@ -6197,7 +6723,12 @@ dl_unres(self) == /\ pc[self] = "dl_unres"
                                   dl_oldclass, ag_order, ag_class, ag_local, 
                                   ag_frame, ag_len, ag_start, ag_near, ag_done, 
                                   ap_frame, ap_order, ap_class, ap_local, ad_c, 
-                                  ad_k, ad_old, pcx, cur, blk >>
+                                  ad_k, ad_old, cg_t, cg_mclass, cg_mfree, 
+                                  cg_cclass, cg_cop, cg_prev, cg_done, 
+                                  cg_fetched, cg_h, cg_v, cg_next, cg_ok, 
+                                  cg_seen, ac_id, ac_mclass, ac_mfree, 
+                                  ac_cclass, ac_cop, ac_i, ac_done, pcx, cur, 
+                                  blk >>
 
 dl_lower(self) == /\ pc[self] = "dl_lower"
                   /\ IF dl_frame[self] = -1
@@ -6266,7 +6797,12 @@ dl_lower(self) == /\ pc[self] = "dl_lower"
                                   dl_oldclass, ag_order, ag_class, ag_local, 
                                   ag_frame, ag_len, ag_start, ag_near, ag_done, 
                                   ap_frame, ap_order, ap_class, ap_local, ad_c, 
-                                  ad_k, ad_old, pcx, cur, blk >>
+                                  ad_k, ad_old, cg_t, cg_mclass, cg_mfree, 
+                                  cg_cclass, cg_cop, cg_prev, cg_done, 
+                                  cg_fetched, cg_h, cg_v, cg_next, cg_ok, 
+                                  cg_seen, ac_id, ac_mclass, ac_mfree, 
+                                  ac_cclass, ac_cop, ac_i, ac_done, pcx, cur, 
+                                  blk >>
 
 dl_lower_r(self) == /\ pc[self] = "dl_lower_r"
                     /\ IF rv[self].ok
@@ -6326,7 +6862,12 @@ dl_lower_r(self) == /\ pc[self] = "dl_lower_r"
                                     ag_class, ag_local, ag_frame, ag_len, 
                                     ag_start, ag_near, ag_done, ap_frame, 
                                     ap_order, ap_class, ap_local, ad_c, ad_k, 
-                                    ad_old, pcx, cur, blk >>
+                                    ad_old, cg_t, cg_mclass, cg_mfree, 
+                                    cg_cclass, cg_cop, cg_prev, cg_done, 
+                                    cg_fetched, cg_h, cg_v, cg_next, cg_ok, 
+                                    cg_seen, ac_id, ac_mclass, ac_mfree, 
+                                    ac_cclass, ac_cop, ac_i, ac_done, pcx, cur, 
+                                    blk >>
 
 dl_undo_r(self) == /\ pc[self] = "dl_undo_r"
                    /\ rv' = [rv EXCEPT ![self] = [ok |-> FALSE, frame |-> -1, class |-> -1, err |-> "mem"]]
@@ -6371,7 +6912,12 @@ dl_undo_r(self) == /\ pc[self] = "dl_undo_r"
                                    sl_row, sl_jj, ag_order, ag_class, ag_local, 
                                    ag_frame, ag_len, ag_start, ag_near, 
                                    ag_done, ap_frame, ap_order, ap_class, 
-                                   ap_local, ad_c, ad_k, ad_old, pcx, cur, blk >>
+                                   ap_local, ad_c, ad_k, ad_old, cg_t, 
+                                   cg_mclass, cg_mfree, cg_cclass, cg_cop, 
+                                   cg_prev, cg_done, cg_fetched, cg_h, cg_v, 
+                                   cg_next, cg_ok, cg_seen, ac_id, ac_mclass, 
+                                   ac_mfree, ac_cclass, ac_cop, ac_i, ac_done, 
+                                   pcx, cur, blk >>
 
 dl_swap(self) == /\ pc[self] = "dl_swap"
                  /\ dl_old' = [dl_old EXCEPT ![self] = mem[Slot(dl_class[self], dl_local[self])]]
@@ -6408,7 +6954,11 @@ dl_swap(self) == /\ pc[self] = "dl_swap"
                                  ag_order, ag_class, ag_local, ag_frame, 
                                  ag_len, ag_start, ag_near, ag_done, ap_frame, 
                                  ap_order, ap_class, ap_local, ad_c, ad_k, 
-                                 ad_old, pcx, cur, blk >>
+                                 ad_old, cg_t, cg_mclass, cg_mfree, cg_cclass, 
+                                 cg_cop, cg_prev, cg_done, cg_fetched, cg_h, 
+                                 cg_v, cg_next, cg_ok, cg_seen, ac_id, 
+                                 ac_mclass, ac_mfree, ac_cclass, ac_cop, ac_i, 
+                                 ac_done, pcx, cur, blk >>
 
 demote_local(self) == dl_begin(self) \/ Lbl_8(self) \/ dl_classes(self)
                          \/ dl_slots(self) \/ dl_slots_r(self)
@@ -6578,8 +7128,12 @@ ag_begin(self) == /\ pc[self] = "ag_begin"
                                   dl_j, dl_found, dl_new, dl_old, dl_jj, 
                                   dl_oldclass, ag_order, ag_class, ag_local, 
                                   ag_frame, ag_near, ap_frame, ap_order, 
-                                  ap_class, ap_local, ad_c, ad_k, ad_old, pcx, 
-                                  cur, blk >>
+                                  ap_class, ap_local, ad_c, ad_k, ad_old, cg_t, 
+                                  cg_mclass, cg_mfree, cg_cclass, cg_cop, 
+                                  cg_prev, cg_done, cg_fetched, cg_h, cg_v, 
+                                  cg_next, cg_ok, cg_seen, ac_id, ac_mclass, 
+                                  ac_mfree, ac_cclass, ac_cop, ac_i, ac_done, 
+                                  pcx, cur, blk >>
 
 Lbl_9(self) == /\ pc[self] = "Lbl_9"
                /\ pc' = [pc EXCEPT ![self] = Head(stack[self]).pc]
@@ -6618,7 +7172,11 @@ Lbl_9(self) == /\ pc[self] = "Lbl_9"
                                dl_local, dl_order, dl_frame, dl_i, dl_tc, dl_j, 
                                dl_found, dl_new, dl_old, dl_jj, dl_oldclass, 
                                ap_frame, ap_order, ap_class, ap_local, ad_c, 
-                               ad_k, ad_old, pcx, cur, blk >>
+                               ad_k, ad_old, cg_t, cg_mclass, cg_mfree, 
+                               cg_cclass, cg_cop, cg_prev, cg_done, cg_fetched, 
+                               cg_h, cg_v, cg_next, cg_ok, cg_seen, ac_id, 
+                               ac_mclass, ac_mfree, ac_cclass, ac_cop, ac_i, 
+                               ac_done, pcx, cur, blk >>
 
 ag_at_global(self) == /\ pc[self] = "ag_at_global"
                       /\ IF ~ag_done[self]
@@ -6671,7 +7229,12 @@ ag_at_global(self) == /\ pc[self] = "ag_at_global"
                                       ag_class, ag_local, ag_frame, ag_len, 
                                       ag_start, ag_near, ag_done, ap_frame, 
                                       ap_order, ap_class, ap_local, ad_c, ad_k, 
-                                      ad_old, pcx, cur, blk >>
+                                      ad_old, cg_t, cg_mclass, cg_mfree, 
+                                      cg_cclass, cg_cop, cg_prev, cg_done, 
+                                      cg_fetched, cg_h, cg_v, cg_next, cg_ok, 
+                                      cg_seen, ac_id, ac_mclass, ac_mfree, 
+                                      ac_cclass, ac_cop, ac_i, ac_done, pcx, 
+                                      cur, blk >>
 
 ag_at_global_r(self) == /\ pc[self] = "ag_at_global_r"
                         /\ IF rv[self].ok
@@ -6713,8 +7276,12 @@ ag_at_global_r(self) == /\ pc[self] = "ag_at_global_r"
                                         dl_oldclass, ag_order, ag_class, 
                                         ag_local, ag_frame, ag_len, ag_start, 
                                         ag_near, ap_frame, ap_order, ap_class, 
-                                        ap_local, ad_c, ad_k, ad_old, pcx, cur, 
-                                        blk >>
+                                        ap_local, ad_c, ad_k, ad_old, cg_t, 
+                                        cg_mclass, cg_mfree, cg_cclass, cg_cop, 
+                                        cg_prev, cg_done, cg_fetched, cg_h, 
+                                        cg_v, cg_next, cg_ok, cg_seen, ac_id, 
+                                        ac_mclass, ac_mfree, ac_cclass, ac_cop, 
+                                        ac_i, ac_done, pcx, cur, blk >>
 
 ag_at_steal(self) == /\ pc[self] = "ag_at_steal"
                      /\ IF ~ag_done[self]
@@ -6776,8 +7343,12 @@ ag_at_steal(self) == /\ pc[self] = "ag_at_steal"
                                      dl_oldclass, ag_order, ag_class, ag_local, 
                                      ag_frame, ag_len, ag_start, ag_near, 
                                      ag_done, ap_frame, ap_order, ap_class, 
-                                     ap_local, ad_c, ad_k, ad_old, pcx, cur, 
-                                     blk >>
+                                     ap_local, ad_c, ad_k, ad_old, cg_t, 
+                                     cg_mclass, cg_mfree, cg_cclass, cg_cop, 
+                                     cg_prev, cg_done, cg_fetched, cg_h, cg_v, 
+                                     cg_next, cg_ok, cg_seen, ac_id, ac_mclass, 
+                                     ac_mfree, ac_cclass, ac_cop, ac_i, 
+                                     ac_done, pcx, cur, blk >>
 
 ag_at_steal_r(self) == /\ pc[self] = "ag_at_steal_r"
                        /\ IF rv[self].ok
@@ -6819,7 +7390,11 @@ ag_at_steal_r(self) == /\ pc[self] = "ag_at_steal_r"
                                        ag_class, ag_local, ag_frame, ag_len, 
                                        ag_start, ag_near, ap_frame, ap_order, 
                                        ap_class, ap_local, ad_c, ad_k, ad_old, 
-                                       pcx, cur, blk >>
+                                       cg_t, cg_mclass, cg_mfree, cg_cclass, 
+                                       cg_cop, cg_prev, cg_done, cg_fetched, 
+                                       cg_h, cg_v, cg_next, cg_ok, cg_seen, 
+                                       ac_id, ac_mclass, ac_mfree, ac_cclass, 
+                                       ac_cop, ac_i, ac_done, pcx, cur, blk >>
 
 ag_at_demote(self) == /\ pc[self] = "ag_at_demote"
                       /\ IF ~ag_done[self]
@@ -6886,7 +7461,12 @@ ag_at_demote(self) == /\ pc[self] = "ag_at_demote"
                                       ag_order, ag_class, ag_local, ag_frame, 
                                       ag_len, ag_start, ag_near, ag_done, 
                                       ap_frame, ap_order, ap_class, ap_local, 
-                                      ad_c, ad_k, ad_old, pcx, cur, blk >>
+                                      ad_c, ad_k, ad_old, cg_t, cg_mclass, 
+                                      cg_mfree, cg_cclass, cg_cop, cg_prev, 
+                                      cg_done, cg_fetched, cg_h, cg_v, cg_next, 
+                                      cg_ok, cg_seen, ac_id, ac_mclass, 
+                                      ac_mfree, ac_cclass, ac_cop, ac_i, 
+                                      ac_done, pcx, cur, blk >>
 
 ag_at_ret(self) == /\ pc[self] = "ag_at_ret"
                    /\ pc' = [pc EXCEPT ![self] = Head(stack[self]).pc]
@@ -6927,7 +7507,12 @@ ag_at_ret(self) == /\ pc[self] = "ag_at_ret"
                                    dl_frame, dl_i, dl_tc, dl_j, dl_found, 
                                    dl_new, dl_old, dl_jj, dl_oldclass, 
                                    ap_frame, ap_order, ap_class, ap_local, 
-                                   ad_c, ad_k, ad_old, pcx, cur, blk >>
+                                   ad_c, ad_k, ad_old, cg_t, cg_mclass, 
+                                   cg_mfree, cg_cclass, cg_cop, cg_prev, 
+                                   cg_done, cg_fetched, cg_h, cg_v, cg_next, 
+                                   cg_ok, cg_seen, ac_id, ac_mclass, ac_mfree, 
+                                   ac_cclass, ac_cop, ac_i, ac_done, pcx, cur, 
+                                   blk >>
 
 ag_oom1(self) == /\ pc[self] = "ag_oom1"
                  /\ IF ~ag_done[self]
@@ -6986,7 +7571,11 @@ ag_oom1(self) == /\ pc[self] = "ag_oom1"
                                  ag_order, ag_class, ag_local, ag_frame, 
                                  ag_len, ag_start, ag_near, ag_done, ap_frame, 
                                  ap_order, ap_class, ap_local, ad_c, ad_k, 
-                                 ad_old, pcx, cur, blk >>
+                                 ad_old, cg_t, cg_mclass, cg_mfree, cg_cclass, 
+                                 cg_cop, cg_prev, cg_done, cg_fetched, cg_h, 
+                                 cg_v, cg_next, cg_ok, cg_seen, ac_id, 
+                                 ac_mclass, ac_mfree, ac_cclass, ac_cop, ac_i, 
+                                 ac_done, pcx, cur, blk >>
 
 ag_oom1_r(self) == /\ pc[self] = "ag_oom1_r"
                    /\ IF rv[self].ok
@@ -7024,7 +7613,12 @@ ag_oom1_r(self) == /\ pc[self] = "ag_oom1_r"
                                    ag_order, ag_class, ag_local, ag_frame, 
                                    ag_len, ag_start, ag_near, ap_frame, 
                                    ap_order, ap_class, ap_local, ad_c, ad_k, 
-                                   ad_old, pcx, cur, blk >>
+                                   ad_old, cg_t, cg_mclass, cg_mfree, 
+                                   cg_cclass, cg_cop, cg_prev, cg_done, 
+                                   cg_fetched, cg_h, cg_v, cg_next, cg_ok, 
+                                   cg_seen, ac_id, ac_mclass, ac_mfree, 
+                                   ac_cclass, ac_cop, ac_i, ac_done, pcx, cur, 
+                                   blk >>
 
 ag_oom2(self) == /\ pc[self] = "ag_oom2"
                  /\ IF ~ag_done[self]
@@ -7087,7 +7681,12 @@ ag_oom2(self) == /\ pc[self] = "ag_oom2"
                                  sl_found, sl_row, sl_jj, ag_order, ag_class, 
                                  ag_local, ag_frame, ag_len, ag_start, ag_near, 
                                  ag_done, ap_frame, ap_order, ap_class, 
-                                 ap_local, ad_c, ad_k, ad_old, pcx, cur, blk >>
+                                 ap_local, ad_c, ad_k, ad_old, cg_t, cg_mclass, 
+                                 cg_mfree, cg_cclass, cg_cop, cg_prev, cg_done, 
+                                 cg_fetched, cg_h, cg_v, cg_next, cg_ok, 
+                                 cg_seen, ac_id, ac_mclass, ac_mfree, 
+                                 ac_cclass, ac_cop, ac_i, ac_done, pcx, cur, 
+                                 blk >>
 
 ag_ret(self) == /\ pc[self] = "ag_ret"
                 /\ pc' = [pc EXCEPT ![self] = Head(stack[self]).pc]
@@ -7126,7 +7725,11 @@ ag_ret(self) == /\ pc[self] = "ag_ret"
                                 dl_class, dl_local, dl_order, dl_frame, dl_i, 
                                 dl_tc, dl_j, dl_found, dl_new, dl_old, dl_jj, 
                                 dl_oldclass, ap_frame, ap_order, ap_class, 
-                                ap_local, ad_c, ad_k, ad_old, pcx, cur, blk >>
+                                ap_local, ad_c, ad_k, ad_old, cg_t, cg_mclass, 
+                                cg_mfree, cg_cclass, cg_cop, cg_prev, cg_done, 
+                                cg_fetched, cg_h, cg_v, cg_next, cg_ok, 
+                                cg_seen, ac_id, ac_mclass, ac_mfree, ac_cclass, 
+                                ac_cop, ac_i, ac_done, pcx, cur, blk >>
 
 ag_at_local_r(self) == /\ pc[self] = "ag_at_local_r"
                        /\ IF rv[self].ok
@@ -7168,7 +7771,11 @@ ag_at_local_r(self) == /\ pc[self] = "ag_at_local_r"
                                        ag_class, ag_local, ag_frame, ag_len, 
                                        ag_start, ag_near, ap_frame, ap_order, 
                                        ap_class, ap_local, ad_c, ad_k, ad_old, 
-                                       pcx, cur, blk >>
+                                       cg_t, cg_mclass, cg_mfree, cg_cclass, 
+                                       cg_cop, cg_prev, cg_done, cg_fetched, 
+                                       cg_h, cg_v, cg_next, cg_ok, cg_seen, 
+                                       ac_id, ac_mclass, ac_mfree, ac_cclass, 
+                                       ac_cop, ac_i, ac_done, pcx, cur, blk >>
 
 ag_local_r(self) == /\ pc[self] = "ag_local_r"
                     /\ IF rv[self].ok
@@ -7210,8 +7817,12 @@ ag_local_r(self) == /\ pc[self] = "ag_local_r"
                                     dl_old, dl_jj, dl_oldclass, ag_order, 
                                     ag_class, ag_local, ag_frame, ag_len, 
                                     ag_near, ap_frame, ap_order, ap_class, 
-                                    ap_local, ad_c, ad_k, ad_old, pcx, cur, 
-                                    blk >>
+                                    ap_local, ad_c, ad_k, ad_old, cg_t, 
+                                    cg_mclass, cg_mfree, cg_cclass, cg_cop, 
+                                    cg_prev, cg_done, cg_fetched, cg_h, cg_v, 
+                                    cg_next, cg_ok, cg_seen, ac_id, ac_mclass, 
+                                    ac_mfree, ac_cclass, ac_cop, ac_i, ac_done, 
+                                    pcx, cur, blk >>
 
 ag_reserve(self) == /\ pc[self] = "ag_reserve"
                     /\ IF ~ag_done[self]
@@ -7295,7 +7906,12 @@ ag_reserve(self) == /\ pc[self] = "ag_reserve"
                                     dl_oldclass, ag_order, ag_class, ag_local, 
                                     ag_frame, ag_len, ag_done, ap_frame, 
                                     ap_order, ap_class, ap_local, ad_c, ad_k, 
-                                    ad_old, pcx, cur, blk >>
+                                    ad_old, cg_t, cg_mclass, cg_mfree, 
+                                    cg_cclass, cg_cop, cg_prev, cg_done, 
+                                    cg_fetched, cg_h, cg_v, cg_next, cg_ok, 
+                                    cg_seen, ac_id, ac_mclass, ac_mfree, 
+                                    ac_cclass, ac_cop, ac_i, ac_done, pcx, cur, 
+                                    blk >>
 
 ag_global(self) == /\ pc[self] = "ag_global"
                    /\ IF ~ag_done[self]
@@ -7366,7 +7982,12 @@ ag_global(self) == /\ pc[self] = "ag_global"
                                    dl_oldclass, ag_order, ag_class, ag_local, 
                                    ag_frame, ag_len, ag_start, ag_near, 
                                    ag_done, ap_frame, ap_order, ap_class, 
-                                   ap_local, ad_c, ad_k, ad_old, pcx, cur, blk >>
+                                   ap_local, ad_c, ad_k, ad_old, cg_t, 
+                                   cg_mclass, cg_mfree, cg_cclass, cg_cop, 
+                                   cg_prev, cg_done, cg_fetched, cg_h, cg_v, 
+                                   cg_next, cg_ok, cg_seen, ac_id, ac_mclass, 
+                                   ac_mfree, ac_cclass, ac_cop, ac_i, ac_done, 
+                                   pcx, cur, blk >>
 
 ag_global_r(self) == /\ pc[self] = "ag_global_r"
                      /\ IF rv[self].ok
@@ -7405,7 +8026,12 @@ ag_global_r(self) == /\ pc[self] = "ag_global_r"
                                      dl_oldclass, ag_order, ag_class, ag_local, 
                                      ag_frame, ag_len, ag_start, ag_near, 
                                      ap_frame, ap_order, ap_class, ap_local, 
-                                     ad_c, ad_k, ad_old, pcx, cur, blk >>
+                                     ad_c, ad_k, ad_old, cg_t, cg_mclass, 
+                                     cg_mfree, cg_cclass, cg_cop, cg_prev, 
+                                     cg_done, cg_fetched, cg_h, cg_v, cg_next, 
+                                     cg_ok, cg_seen, ac_id, ac_mclass, 
+                                     ac_mfree, ac_cclass, ac_cop, ac_i, 
+                                     ac_done, pcx, cur, blk >>
 
 ag_near_r(self) == /\ pc[self] = "ag_near_r"
                    /\ IF rv[self].ok
@@ -7443,7 +8069,12 @@ ag_near_r(self) == /\ pc[self] = "ag_near_r"
                                    ag_order, ag_class, ag_local, ag_frame, 
                                    ag_len, ag_start, ag_near, ap_frame, 
                                    ap_order, ap_class, ap_local, ad_c, ad_k, 
-                                   ad_old, pcx, cur, blk >>
+                                   ad_old, cg_t, cg_mclass, cg_mfree, 
+                                   cg_cclass, cg_cop, cg_prev, cg_done, 
+                                   cg_fetched, cg_h, cg_v, cg_next, cg_ok, 
+                                   cg_seen, ac_id, ac_mclass, ac_mfree, 
+                                   ac_cclass, ac_cop, ac_i, ac_done, pcx, cur, 
+                                   blk >>
 
 ag_steal_r(self) == /\ pc[self] = "ag_steal_r"
                     /\ IF rv[self].ok
@@ -7482,7 +8113,11 @@ ag_steal_r(self) == /\ pc[self] = "ag_steal_r"
                                     ag_class, ag_local, ag_frame, ag_len, 
                                     ag_start, ag_near, ap_frame, ap_order, 
                                     ap_class, ap_local, ad_c, ad_k, ad_old, 
-                                    pcx, cur, blk >>
+                                    cg_t, cg_mclass, cg_mfree, cg_cclass, 
+                                    cg_cop, cg_prev, cg_done, cg_fetched, cg_h, 
+                                    cg_v, cg_next, cg_ok, cg_seen, ac_id, 
+                                    ac_mclass, ac_mfree, ac_cclass, ac_cop, 
+                                    ac_i, ac_done, pcx, cur, blk >>
 
 api_get(self) == ag_begin(self) \/ Lbl_9(self) \/ ag_at_global(self)
                     \/ ag_at_global_r(self) \/ ag_at_steal(self)
@@ -7553,7 +8188,11 @@ ap_begin(self) == /\ pc[self] = "ap_begin"
                                   dl_new, dl_old, dl_jj, dl_oldclass, ag_order, 
                                   ag_class, ag_local, ag_frame, ag_len, 
                                   ag_start, ag_near, ag_done, ad_c, ad_k, 
-                                  ad_old, pcx, cur, blk >>
+                                  ad_old, cg_t, cg_mclass, cg_mfree, cg_cclass, 
+                                  cg_cop, cg_prev, cg_done, cg_fetched, cg_h, 
+                                  cg_v, cg_next, cg_ok, cg_seen, ac_id, 
+                                  ac_mclass, ac_mfree, ac_cclass, ac_cop, ac_i, 
+                                  ac_done, pcx, cur, blk >>
 
 ap_lower_r(self) == /\ pc[self] = "ap_lower_r"
                     /\ IF ~rv[self].ok
@@ -7623,7 +8262,12 @@ ap_lower_r(self) == /\ pc[self] = "ap_lower_r"
                                     dl_j, dl_found, dl_new, dl_old, dl_jj, 
                                     dl_oldclass, ag_order, ag_class, ag_local, 
                                     ag_frame, ag_len, ag_start, ag_near, 
-                                    ag_done, ad_c, ad_k, ad_old, pcx, cur, blk >>
+                                    ag_done, ad_c, ad_k, ad_old, cg_t, 
+                                    cg_mclass, cg_mfree, cg_cclass, cg_cop, 
+                                    cg_prev, cg_done, cg_fetched, cg_h, cg_v, 
+                                    cg_next, cg_ok, cg_seen, ac_id, ac_mclass, 
+                                    ac_mfree, ac_cclass, ac_cop, ac_i, ac_done, 
+                                    pcx, cur, blk >>
 
 ap_global(self) == /\ pc[self] = "ap_global"
                    /\ /\ stack' = [stack EXCEPT ![self] = << [ procedure |->  "trees_put",
@@ -7663,8 +8307,12 @@ ap_global(self) == /\ pc[self] = "ap_global"
                                    dl_jj, dl_oldclass, ag_order, ag_class, 
                                    ag_local, ag_frame, ag_len, ag_start, 
                                    ag_near, ag_done, ap_frame, ap_order, 
-                                   ap_class, ap_local, ad_c, ad_k, ad_old, pcx, 
-                                   cur, blk >>
+                                   ap_class, ap_local, ad_c, ad_k, ad_old, 
+                                   cg_t, cg_mclass, cg_mfree, cg_cclass, 
+                                   cg_cop, cg_prev, cg_done, cg_fetched, cg_h, 
+                                   cg_v, cg_next, cg_ok, cg_seen, ac_id, 
+                                   ac_mclass, ac_mfree, ac_cclass, ac_cop, 
+                                   ac_i, ac_done, pcx, cur, blk >>
 
 ap_global_r(self) == /\ pc[self] = "ap_global_r"
                      /\ rv' = [rv EXCEPT ![self] = [ok |-> TRUE, err |-> ""]]
@@ -7704,8 +8352,12 @@ ap_global_r(self) == /\ pc[self] = "ap_global_r"
                                      dl_j, dl_found, dl_new, dl_old, dl_jj, 
                                      dl_oldclass, ag_order, ag_class, ag_local, 
                                      ag_frame, ag_len, ag_start, ag_near, 
-                                     ag_done, ad_c, ad_k, ad_old, pcx, cur, 
-                                     blk >>
+                                     ag_done, ad_c, ad_k, ad_old, cg_t, 
+                                     cg_mclass, cg_mfree, cg_cclass, cg_cop, 
+                                     cg_prev, cg_done, cg_fetched, cg_h, cg_v, 
+                                     cg_next, cg_ok, cg_seen, ac_id, ac_mclass, 
+                                     ac_mfree, ac_cclass, ac_cop, ac_i, 
+                                     ac_done, pcx, cur, blk >>
 
 ap_local_r(self) == /\ pc[self] = "ap_local_r"
                     /\ IF rv[self].ok
@@ -7749,7 +8401,12 @@ ap_local_r(self) == /\ pc[self] = "ap_local_r"
                                     dl_old, dl_jj, dl_oldclass, ag_order, 
                                     ag_class, ag_local, ag_frame, ag_len, 
                                     ag_start, ag_near, ag_done, ad_c, ad_k, 
-                                    ad_old, pcx, cur, blk >>
+                                    ad_old, cg_t, cg_mclass, cg_mfree, 
+                                    cg_cclass, cg_cop, cg_prev, cg_done, 
+                                    cg_fetched, cg_h, cg_v, cg_next, cg_ok, 
+                                    cg_seen, ac_id, ac_mclass, ac_mfree, 
+                                    ac_cclass, ac_cop, ac_i, ac_done, pcx, cur, 
+                                    blk >>
 
 api_put(self) == ap_begin(self) \/ ap_lower_r(self) \/ ap_global(self)
                     \/ ap_global_r(self) \/ ap_local_r(self)
@@ -7786,7 +8443,11 @@ ad_begin(self) == /\ pc[self] = "ad_begin"
                                   dl_oldclass, ag_order, ag_class, ag_local, 
                                   ag_frame, ag_len, ag_start, ag_near, ag_done, 
                                   ap_frame, ap_order, ap_class, ap_local, ad_k, 
-                                  ad_old, pcx, cur, blk >>
+                                  ad_old, cg_t, cg_mclass, cg_mfree, cg_cclass, 
+                                  cg_cop, cg_prev, cg_done, cg_fetched, cg_h, 
+                                  cg_v, cg_next, cg_ok, cg_seen, ac_id, 
+                                  ac_mclass, ac_mfree, ac_cclass, ac_cop, ac_i, 
+                                  ac_done, pcx, cur, blk >>
 
 ad_classes(self) == /\ pc[self] = "ad_classes"
                     /\ IF ad_c[self] < 8
@@ -7829,8 +8490,12 @@ ad_classes(self) == /\ pc[self] = "ad_classes"
                                     dl_old, dl_jj, dl_oldclass, ag_order, 
                                     ag_class, ag_local, ag_frame, ag_len, 
                                     ag_start, ag_near, ag_done, ap_frame, 
-                                    ap_order, ap_class, ap_local, pcx, cur, 
-                                    blk >>
+                                    ap_order, ap_class, ap_local, cg_t, 
+                                    cg_mclass, cg_mfree, cg_cclass, cg_cop, 
+                                    cg_prev, cg_done, cg_fetched, cg_h, cg_v, 
+                                    cg_next, cg_ok, cg_seen, ac_id, ac_mclass, 
+                                    ac_mfree, ac_cclass, ac_cop, ac_i, ac_done, 
+                                    pcx, cur, blk >>
 
 ad_slots(self) == /\ pc[self] = "ad_slots"
                   /\ IF ad_k[self] < NSlots(ad_c[self])
@@ -7885,6 +8550,10 @@ ad_slots(self) == /\ pc[self] = "ad_slots"
                                   dl_oldclass, ag_order, ag_class, ag_local, 
                                   ag_frame, ag_len, ag_start, ag_near, ag_done, 
                                   ap_frame, ap_order, ap_class, ap_local, ad_k, 
+                                  cg_t, cg_mclass, cg_mfree, cg_cclass, cg_cop, 
+                                  cg_prev, cg_done, cg_fetched, cg_h, cg_v, 
+                                  cg_next, cg_ok, cg_seen, ac_id, ac_mclass, 
+                                  ac_mfree, ac_cclass, ac_cop, ac_i, ac_done, 
                                   pcx, cur, blk >>
 
 ad_next(self) == /\ pc[self] = "ad_next"
@@ -7919,10 +8588,483 @@ ad_next(self) == /\ pc[self] = "ad_next"
                                  ag_order, ag_class, ag_local, ag_frame, 
                                  ag_len, ag_start, ag_near, ag_done, ap_frame, 
                                  ap_order, ap_class, ap_local, ad_c, ad_old, 
+                                 cg_t, cg_mclass, cg_mfree, cg_cclass, cg_cop, 
+                                 cg_prev, cg_done, cg_fetched, cg_h, cg_v, 
+                                 cg_next, cg_ok, cg_seen, ac_id, ac_mclass, 
+                                 ac_mfree, ac_cclass, ac_cop, ac_i, ac_done, 
                                  pcx, cur, blk >>
 
 api_drain(self) == ad_begin(self) \/ ad_classes(self) \/ ad_slots(self)
                       \/ ad_next(self)
+
+cg_load(self) == /\ pc[self] = "cg_load"
+                 /\ cg_prev' = [cg_prev EXCEPT ![self] = mem[(Tree(cg_t[self]))]]
+                 /\ lastop' = [seq |-> lastop.seq + 1, t |-> self, k |-> "load", loc |-> (Tree(cg_t[self])), old |-> mem[(Tree(cg_t[self]))], new |-> mem[(Tree(cg_t[self]))], ok |-> TRUE]
+                 /\ cg_done' = [cg_done EXCEPT ![self] = FALSE]
+                 /\ pc' = [pc EXCEPT ![self] = "cg_loop"]
+                 /\ UNCHANGED << mem, held, results, inflight, rv, panicked, 
+                                 stack, dp_why, tu_loc, tu_fn, tu_arg, tu_prev, 
+                                 tu_next, tu_done, tu_ok, tu_seen, lg_row, 
+                                 lg_order, lg_tree, lg_off, lg_j, lg_i, lg_h, 
+                                 lg_found, lg_frame, lg_n, ca_h0, ca_num, 
+                                 ca_cur, ca_new, ca_i, ca_ok, ca_seen, ca_j, 
+                                 sf_h, sf_start, sf_order, sf_i, sf_r, 
+                                 sf_found, sf_off, sf_nrows, sf_c, sf_k, sf_v, 
+                                 sf_zero, sf_ok, sf_seen, sf_u, tg_h, tg_off, 
+                                 tg_order, tg_exp, tg_ok, tg_i, tg_n, tg_seen, 
+                                 tg_u, tg_r0, la_frame, la_order, la_h, 
+                                 ps_frame, ps_order, lp_frame, lp_order, lp_h, 
+                                 lp_old, lp_ok, lp_seen, lp_spin, lp_v, tp_t, 
+                                 tp_n, tu2_t, tu2_free, tu2_class, gl_order, 
+                                 gl_class, gl_local, gl_frame, gl_sync, gl_row, 
+                                 gl_res, gl_min, gl_got, sg_i, sg_class, 
+                                 sg_order, sg_frame, sg_c, rs_i, rs_order, 
+                                 rs_class, rs_local, rs_reserved, rs_free, 
+                                 rs_tc, rs_frame, rs_old, sb_n, sb_start, 
+                                 sb_offset, sb_len, sb_mode, sb_order, 
+                                 sb_class, sb_local, sb_i, sb_idx, sb_t, sb_p, 
+                                 sb_best, sb_done, sb_k, sl_class, sl_local, 
+                                 sl_order, sl_frame, sl_i, sl_tc, sl_j, 
+                                 sl_found, sl_row, sl_jj, dl_class, dl_local, 
+                                 dl_order, dl_frame, dl_i, dl_tc, dl_j, 
+                                 dl_found, dl_new, dl_old, dl_jj, dl_oldclass, 
+                                 ag_order, ag_class, ag_local, ag_frame, 
+                                 ag_len, ag_start, ag_near, ag_done, ap_frame, 
+                                 ap_order, ap_class, ap_local, ad_c, ad_k, 
+                                 ad_old, cg_t, cg_mclass, cg_mfree, cg_cclass, 
+                                 cg_cop, cg_fetched, cg_h, cg_v, cg_next, 
+                                 cg_ok, cg_seen, ac_id, ac_mclass, ac_mfree, 
+                                 ac_cclass, ac_cop, ac_i, ac_done, pcx, cur, 
+                                 blk >>
+
+cg_loop(self) == /\ pc[self] = "cg_loop"
+                 /\ IF ~cg_done[self]
+                       THEN /\ cg_fetched' = [cg_fetched EXCEPT ![self] = 0]
+                            /\ IF ~cg_prev[self].res /\ (cg_mclass[self] = -1 \/ cg_mclass[self] = cg_prev[self].class) /\ cg_prev[self].free >= cg_mfree[self]
+                                  /\ cg_cop[self] = 1 /\ cg_prev[self].free = 0
+                                  THEN /\ cg_h' = [cg_h EXCEPT ![self] = 0]
+                                       /\ pc' = [pc EXCEPT ![self] = "cg_fetch"]
+                                  ELSE /\ pc' = [pc EXCEPT ![self] = "cg_cas"]
+                                       /\ cg_h' = cg_h
+                            /\ UNCHANGED << stack, cg_t, cg_mclass, cg_mfree, 
+                                            cg_cclass, cg_cop, cg_prev, 
+                                            cg_done, cg_v, cg_next, cg_ok, 
+                                            cg_seen >>
+                       ELSE /\ pc' = [pc EXCEPT ![self] = Head(stack[self]).pc]
+                            /\ cg_prev' = [cg_prev EXCEPT ![self] = Head(stack[self]).cg_prev]
+                            /\ cg_done' = [cg_done EXCEPT ![self] = Head(stack[self]).cg_done]
+                            /\ cg_fetched' = [cg_fetched EXCEPT ![self] = Head(stack[self]).cg_fetched]
+                            /\ cg_h' = [cg_h EXCEPT ![self] = Head(stack[self]).cg_h]
+                            /\ cg_v' = [cg_v EXCEPT ![self] = Head(stack[self]).cg_v]
+                            /\ cg_next' = [cg_next EXCEPT ![self] = Head(stack[self]).cg_next]
+                            /\ cg_ok' = [cg_ok EXCEPT ![self] = Head(stack[self]).cg_ok]
+                            /\ cg_seen' = [cg_seen EXCEPT ![self] = Head(stack[self]).cg_seen]
+                            /\ cg_t' = [cg_t EXCEPT ![self] = Head(stack[self]).cg_t]
+                            /\ cg_mclass' = [cg_mclass EXCEPT ![self] = Head(stack[self]).cg_mclass]
+                            /\ cg_mfree' = [cg_mfree EXCEPT ![self] = Head(stack[self]).cg_mfree]
+                            /\ cg_cclass' = [cg_cclass EXCEPT ![self] = Head(stack[self]).cg_cclass]
+                            /\ cg_cop' = [cg_cop EXCEPT ![self] = Head(stack[self]).cg_cop]
+                            /\ stack' = [stack EXCEPT ![self] = Tail(stack[self])]
+                 /\ UNCHANGED << mem, held, results, inflight, rv, panicked, 
+                                 lastop, dp_why, tu_loc, tu_fn, tu_arg, 
+                                 tu_prev, tu_next, tu_done, tu_ok, tu_seen, 
+                                 lg_row, lg_order, lg_tree, lg_off, lg_j, lg_i, 
+                                 lg_h, lg_found, lg_frame, lg_n, ca_h0, ca_num, 
+                                 ca_cur, ca_new, ca_i, ca_ok, ca_seen, ca_j, 
+                                 sf_h, sf_start, sf_order, sf_i, sf_r, 
+                                 sf_found, sf_off, sf_nrows, sf_c, sf_k, sf_v, 
+                                 sf_zero, sf_ok, sf_seen, sf_u, tg_h, tg_off, 
+                                 tg_order, tg_exp, tg_ok, tg_i, tg_n, tg_seen, 
+                                 tg_u, tg_r0, la_frame, la_order, la_h, 
+                                 ps_frame, ps_order, lp_frame, lp_order, lp_h, 
+                                 lp_old, lp_ok, lp_seen, lp_spin, lp_v, tp_t, 
+                                 tp_n, tu2_t, tu2_free, tu2_class, gl_order, 
+                                 gl_class, gl_local, gl_frame, gl_sync, gl_row, 
+                                 gl_res, gl_min, gl_got, sg_i, sg_class, 
+                                 sg_order, sg_frame, sg_c, rs_i, rs_order, 
+                                 rs_class, rs_local, rs_reserved, rs_free, 
+                                 rs_tc, rs_frame, rs_old, sb_n, sb_start, 
+                                 sb_offset, sb_len, sb_mode, sb_order, 
+                                 sb_class, sb_local, sb_i, sb_idx, sb_t, sb_p, 
+                                 sb_best, sb_done, sb_k, sl_class, sl_local, 
+                                 sl_order, sl_frame, sl_i, sl_tc, sl_j, 
+                                 sl_found, sl_row, sl_jj, dl_class, dl_local, 
+                                 dl_order, dl_frame, dl_i, dl_tc, dl_j, 
+                                 dl_found, dl_new, dl_old, dl_jj, dl_oldclass, 
+                                 ag_order, ag_class, ag_local, ag_frame, 
+                                 ag_len, ag_start, ag_near, ag_done, ap_frame, 
+                                 ap_order, ap_class, ap_local, ad_c, ad_k, 
+                                 ad_old, ac_id, ac_mclass, ac_mfree, ac_cclass, 
+                                 ac_cop, ac_i, ac_done, pcx, cur, blk >>
+
+cg_cas(self) == /\ pc[self] = "cg_cas"
+                /\ cg_next' = [cg_next EXCEPT ![self] = F("chg", [mclass |-> cg_mclass[self], mfree |-> cg_mfree[self], cclass |-> cg_cclass[self], cop |-> cg_cop[self], fetched |-> cg_fetched[self]], cg_prev[self])]
+                /\ IF ~IsSome(cg_next'[self])
+                      THEN /\ rv' = [rv EXCEPT ![self] = [ok |-> FALSE, err |-> "mem"]]
+                           /\ cg_done' = [cg_done EXCEPT ![self] = TRUE]
+                           /\ UNCHANGED << mem, lastop, cg_prev, cg_ok, 
+                                           cg_seen >>
+                      ELSE /\ IF mem[(Tree(cg_t[self]))] = cg_prev[self]
+                                 THEN /\ cg_ok' = [cg_ok EXCEPT ![self] = TRUE]
+                                      /\ cg_seen' = [cg_seen EXCEPT ![self] = cg_prev[self]]
+                                      /\ lastop' = [seq |-> lastop.seq + 1, t |-> self, k |-> "cas", loc |-> (Tree(cg_t[self])), old |-> cg_prev[self], new |-> (Val(cg_next'[self])), ok |-> TRUE]
+                                      /\ mem' = [mem EXCEPT ![(Tree(cg_t[self]))] = Val(cg_next'[self])]
+                                 ELSE /\ cg_ok' = [cg_ok EXCEPT ![self] = FALSE]
+                                      /\ cg_seen' = [cg_seen EXCEPT ![self] = mem[(Tree(cg_t[self]))]]
+                                      /\ lastop' = [seq |-> lastop.seq + 1, t |-> self, k |-> "cas", loc |-> (Tree(cg_t[self])), old |-> mem[(Tree(cg_t[self]))], new |-> (Val(cg_next'[self])), ok |-> FALSE]
+                                      /\ mem' = mem
+                           /\ IF cg_ok'[self]
+                                 THEN /\ rv' = [rv EXCEPT ![self] = [ok |-> TRUE, err |-> ""]]
+                                      /\ cg_done' = [cg_done EXCEPT ![self] = TRUE]
+                                      /\ UNCHANGED cg_prev
+                                 ELSE /\ cg_prev' = [cg_prev EXCEPT ![self] = cg_seen'[self]]
+                                      /\ UNCHANGED << rv, cg_done >>
+                /\ pc' = [pc EXCEPT ![self] = "cg_loop"]
+                /\ UNCHANGED << held, results, inflight, panicked, stack, 
+                                dp_why, tu_loc, tu_fn, tu_arg, tu_prev, 
+                                tu_next, tu_done, tu_ok, tu_seen, lg_row, 
+                                lg_order, lg_tree, lg_off, lg_j, lg_i, lg_h, 
+                                lg_found, lg_frame, lg_n, ca_h0, ca_num, 
+                                ca_cur, ca_new, ca_i, ca_ok, ca_seen, ca_j, 
+                                sf_h, sf_start, sf_order, sf_i, sf_r, sf_found, 
+                                sf_off, sf_nrows, sf_c, sf_k, sf_v, sf_zero, 
+                                sf_ok, sf_seen, sf_u, tg_h, tg_off, tg_order, 
+                                tg_exp, tg_ok, tg_i, tg_n, tg_seen, tg_u, 
+                                tg_r0, la_frame, la_order, la_h, ps_frame, 
+                                ps_order, lp_frame, lp_order, lp_h, lp_old, 
+                                lp_ok, lp_seen, lp_spin, lp_v, tp_t, tp_n, 
+                                tu2_t, tu2_free, tu2_class, gl_order, gl_class, 
+                                gl_local, gl_frame, gl_sync, gl_row, gl_res, 
+                                gl_min, gl_got, sg_i, sg_class, sg_order, 
+                                sg_frame, sg_c, rs_i, rs_order, rs_class, 
+                                rs_local, rs_reserved, rs_free, rs_tc, 
+                                rs_frame, rs_old, sb_n, sb_start, sb_offset, 
+                                sb_len, sb_mode, sb_order, sb_class, sb_local, 
+                                sb_i, sb_idx, sb_t, sb_p, sb_best, sb_done, 
+                                sb_k, sl_class, sl_local, sl_order, sl_frame, 
+                                sl_i, sl_tc, sl_j, sl_found, sl_row, sl_jj, 
+                                dl_class, dl_local, dl_order, dl_frame, dl_i, 
+                                dl_tc, dl_j, dl_found, dl_new, dl_old, dl_jj, 
+                                dl_oldclass, ag_order, ag_class, ag_local, 
+                                ag_frame, ag_len, ag_start, ag_near, ag_done, 
+                                ap_frame, ap_order, ap_class, ap_local, ad_c, 
+                                ad_k, ad_old, cg_t, cg_mclass, cg_mfree, 
+                                cg_cclass, cg_cop, cg_fetched, cg_h, cg_v, 
+                                ac_id, ac_mclass, ac_mfree, ac_cclass, ac_cop, 
+                                ac_i, ac_done, pcx, cur, blk >>
+
+cg_fetch(self) == /\ pc[self] = "cg_fetch"
+                  /\ IF cg_h[self] < TH
+                        THEN /\ cg_v' = [cg_v EXCEPT ![self] = mem[(Entry(cg_t[self] * TH + cg_h[self]))]]
+                             /\ lastop' = [seq |-> lastop.seq + 1, t |-> self, k |-> "load", loc |-> (Entry(cg_t[self] * TH + cg_h[self])), old |-> mem[(Entry(cg_t[self] * TH + cg_h[self]))], new |-> mem[(Entry(cg_t[self] * TH + cg_h[self]))], ok |-> TRUE]
+                             /\ cg_fetched' = [cg_fetched EXCEPT ![self] = cg_fetched[self] + (IF cg_v'[self] = HUGE THEN 0 ELSE cg_v'[self])]
+                             /\ cg_h' = [cg_h EXCEPT ![self] = cg_h[self] + 1]
+                             /\ pc' = [pc EXCEPT ![self] = "cg_fetch"]
+                        ELSE /\ pc' = [pc EXCEPT ![self] = "cg_cas"]
+                             /\ UNCHANGED << lastop, cg_fetched, cg_h, cg_v >>
+                  /\ UNCHANGED << mem, held, results, inflight, rv, panicked, 
+                                  stack, dp_why, tu_loc, tu_fn, tu_arg, 
+                                  tu_prev, tu_next, tu_done, tu_ok, tu_seen, 
+                                  lg_row, lg_order, lg_tree, lg_off, lg_j, 
+                                  lg_i, lg_h, lg_found, lg_frame, lg_n, ca_h0, 
+                                  ca_num, ca_cur, ca_new, ca_i, ca_ok, ca_seen, 
+                                  ca_j, sf_h, sf_start, sf_order, sf_i, sf_r, 
+                                  sf_found, sf_off, sf_nrows, sf_c, sf_k, sf_v, 
+                                  sf_zero, sf_ok, sf_seen, sf_u, tg_h, tg_off, 
+                                  tg_order, tg_exp, tg_ok, tg_i, tg_n, tg_seen, 
+                                  tg_u, tg_r0, la_frame, la_order, la_h, 
+                                  ps_frame, ps_order, lp_frame, lp_order, lp_h, 
+                                  lp_old, lp_ok, lp_seen, lp_spin, lp_v, tp_t, 
+                                  tp_n, tu2_t, tu2_free, tu2_class, gl_order, 
+                                  gl_class, gl_local, gl_frame, gl_sync, 
+                                  gl_row, gl_res, gl_min, gl_got, sg_i, 
+                                  sg_class, sg_order, sg_frame, sg_c, rs_i, 
+                                  rs_order, rs_class, rs_local, rs_reserved, 
+                                  rs_free, rs_tc, rs_frame, rs_old, sb_n, 
+                                  sb_start, sb_offset, sb_len, sb_mode, 
+                                  sb_order, sb_class, sb_local, sb_i, sb_idx, 
+                                  sb_t, sb_p, sb_best, sb_done, sb_k, sl_class, 
+                                  sl_local, sl_order, sl_frame, sl_i, sl_tc, 
+                                  sl_j, sl_found, sl_row, sl_jj, dl_class, 
+                                  dl_local, dl_order, dl_frame, dl_i, dl_tc, 
+                                  dl_j, dl_found, dl_new, dl_old, dl_jj, 
+                                  dl_oldclass, ag_order, ag_class, ag_local, 
+                                  ag_frame, ag_len, ag_start, ag_near, ag_done, 
+                                  ap_frame, ap_order, ap_class, ap_local, ad_c, 
+                                  ad_k, ad_old, cg_t, cg_mclass, cg_mfree, 
+                                  cg_cclass, cg_cop, cg_prev, cg_done, cg_next, 
+                                  cg_ok, cg_seen, ac_id, ac_mclass, ac_mfree, 
+                                  ac_cclass, ac_cop, ac_i, ac_done, pcx, cur, 
+                                  blk >>
+
+change_at(self) == cg_load(self) \/ cg_loop(self) \/ cg_cas(self)
+                      \/ cg_fetch(self)
+
+ac_begin(self) == /\ pc[self] = "ac_begin"
+                  /\ IF ac_id[self] # -1
+                        THEN /\ IF ac_id[self] >= NT
+                                   THEN /\ rv' = [rv EXCEPT ![self] = [ok |-> FALSE, err |-> "arg"]]
+                                        /\ pc' = [pc EXCEPT ![self] = Head(stack[self]).pc]
+                                        /\ ac_i' = [ac_i EXCEPT ![self] = Head(stack[self]).ac_i]
+                                        /\ ac_done' = [ac_done EXCEPT ![self] = Head(stack[self]).ac_done]
+                                        /\ ac_id' = [ac_id EXCEPT ![self] = Head(stack[self]).ac_id]
+                                        /\ ac_mclass' = [ac_mclass EXCEPT ![self] = Head(stack[self]).ac_mclass]
+                                        /\ ac_mfree' = [ac_mfree EXCEPT ![self] = Head(stack[self]).ac_mfree]
+                                        /\ ac_cclass' = [ac_cclass EXCEPT ![self] = Head(stack[self]).ac_cclass]
+                                        /\ ac_cop' = [ac_cop EXCEPT ![self] = Head(stack[self]).ac_cop]
+                                        /\ stack' = [stack EXCEPT ![self] = Tail(stack[self])]
+                                        /\ UNCHANGED << cg_t, cg_mclass, 
+                                                        cg_mfree, cg_cclass, 
+                                                        cg_cop, cg_prev, 
+                                                        cg_done, cg_fetched, 
+                                                        cg_h, cg_v, cg_next, 
+                                                        cg_ok, cg_seen >>
+                                   ELSE /\ /\ cg_cclass' = [cg_cclass EXCEPT ![self] = ac_cclass[self]]
+                                           /\ cg_cop' = [cg_cop EXCEPT ![self] = ac_cop[self]]
+                                           /\ cg_mclass' = [cg_mclass EXCEPT ![self] = ac_mclass[self]]
+                                           /\ cg_mfree' = [cg_mfree EXCEPT ![self] = ac_mfree[self]]
+                                           /\ cg_t' = [cg_t EXCEPT ![self] = ac_id[self]]
+                                           /\ stack' = [stack EXCEPT ![self] = << [ procedure |->  "change_at",
+                                                                                    pc        |->  "ac_id_r",
+                                                                                    cg_prev   |->  cg_prev[self],
+                                                                                    cg_done   |->  cg_done[self],
+                                                                                    cg_fetched |->  cg_fetched[self],
+                                                                                    cg_h      |->  cg_h[self],
+                                                                                    cg_v      |->  cg_v[self],
+                                                                                    cg_next   |->  cg_next[self],
+                                                                                    cg_ok     |->  cg_ok[self],
+                                                                                    cg_seen   |->  cg_seen[self],
+                                                                                    cg_t      |->  cg_t[self],
+                                                                                    cg_mclass |->  cg_mclass[self],
+                                                                                    cg_mfree  |->  cg_mfree[self],
+                                                                                    cg_cclass |->  cg_cclass[self],
+                                                                                    cg_cop    |->  cg_cop[self] ] >>
+                                                                                \o stack[self]]
+                                        /\ cg_prev' = [cg_prev EXCEPT ![self] = TreeW(0, FALSE, 0)]
+                                        /\ cg_done' = [cg_done EXCEPT ![self] = FALSE]
+                                        /\ cg_fetched' = [cg_fetched EXCEPT ![self] = 0]
+                                        /\ cg_h' = [cg_h EXCEPT ![self] = 0]
+                                        /\ cg_v' = [cg_v EXCEPT ![self] = 0]
+                                        /\ cg_next' = [cg_next EXCEPT ![self] = <<>>]
+                                        /\ cg_ok' = [cg_ok EXCEPT ![self] = FALSE]
+                                        /\ cg_seen' = [cg_seen EXCEPT ![self] = TreeW(0, FALSE, 0)]
+                                        /\ pc' = [pc EXCEPT ![self] = "cg_load"]
+                                        /\ UNCHANGED << rv, ac_id, ac_mclass, 
+                                                        ac_mfree, ac_cclass, 
+                                                        ac_cop, ac_i, ac_done >>
+                        ELSE /\ ac_i' = [ac_i EXCEPT ![self] = 0]
+                             /\ ac_done' = [ac_done EXCEPT ![self] = FALSE]
+                             /\ pc' = [pc EXCEPT ![self] = "ac_search"]
+                             /\ UNCHANGED << rv, stack, cg_t, cg_mclass, 
+                                             cg_mfree, cg_cclass, cg_cop, 
+                                             cg_prev, cg_done, cg_fetched, 
+                                             cg_h, cg_v, cg_next, cg_ok, 
+                                             cg_seen, ac_id, ac_mclass, 
+                                             ac_mfree, ac_cclass, ac_cop >>
+                  /\ UNCHANGED << mem, held, results, inflight, panicked, 
+                                  lastop, dp_why, tu_loc, tu_fn, tu_arg, 
+                                  tu_prev, tu_next, tu_done, tu_ok, tu_seen, 
+                                  lg_row, lg_order, lg_tree, lg_off, lg_j, 
+                                  lg_i, lg_h, lg_found, lg_frame, lg_n, ca_h0, 
+                                  ca_num, ca_cur, ca_new, ca_i, ca_ok, ca_seen, 
+                                  ca_j, sf_h, sf_start, sf_order, sf_i, sf_r, 
+                                  sf_found, sf_off, sf_nrows, sf_c, sf_k, sf_v, 
+                                  sf_zero, sf_ok, sf_seen, sf_u, tg_h, tg_off, 
+                                  tg_order, tg_exp, tg_ok, tg_i, tg_n, tg_seen, 
+                                  tg_u, tg_r0, la_frame, la_order, la_h, 
+                                  ps_frame, ps_order, lp_frame, lp_order, lp_h, 
+                                  lp_old, lp_ok, lp_seen, lp_spin, lp_v, tp_t, 
+                                  tp_n, tu2_t, tu2_free, tu2_class, gl_order, 
+                                  gl_class, gl_local, gl_frame, gl_sync, 
+                                  gl_row, gl_res, gl_min, gl_got, sg_i, 
+                                  sg_class, sg_order, sg_frame, sg_c, rs_i, 
+                                  rs_order, rs_class, rs_local, rs_reserved, 
+                                  rs_free, rs_tc, rs_frame, rs_old, sb_n, 
+                                  sb_start, sb_offset, sb_len, sb_mode, 
+                                  sb_order, sb_class, sb_local, sb_i, sb_idx, 
+                                  sb_t, sb_p, sb_best, sb_done, sb_k, sl_class, 
+                                  sl_local, sl_order, sl_frame, sl_i, sl_tc, 
+                                  sl_j, sl_found, sl_row, sl_jj, dl_class, 
+                                  dl_local, dl_order, dl_frame, dl_i, dl_tc, 
+                                  dl_j, dl_found, dl_new, dl_old, dl_jj, 
+                                  dl_oldclass, ag_order, ag_class, ag_local, 
+                                  ag_frame, ag_len, ag_start, ag_near, ag_done, 
+                                  ap_frame, ap_order, ap_class, ap_local, ad_c, 
+                                  ad_k, ad_old, pcx, cur, blk >>
+
+ac_search(self) == /\ pc[self] = "ac_search"
+                   /\ IF ac_i[self] < NT /\ ~ac_done[self]
+                         THEN /\ /\ cg_cclass' = [cg_cclass EXCEPT ![self] = ac_cclass[self]]
+                                 /\ cg_cop' = [cg_cop EXCEPT ![self] = ac_cop[self]]
+                                 /\ cg_mclass' = [cg_mclass EXCEPT ![self] = ac_mclass[self]]
+                                 /\ cg_mfree' = [cg_mfree EXCEPT ![self] = ac_mfree[self]]
+                                 /\ cg_t' = [cg_t EXCEPT ![self] = SearchIdx(0, ac_i[self])]
+                                 /\ stack' = [stack EXCEPT ![self] = << [ procedure |->  "change_at",
+                                                                          pc        |->  "ac_search_r",
+                                                                          cg_prev   |->  cg_prev[self],
+                                                                          cg_done   |->  cg_done[self],
+                                                                          cg_fetched |->  cg_fetched[self],
+                                                                          cg_h      |->  cg_h[self],
+                                                                          cg_v      |->  cg_v[self],
+                                                                          cg_next   |->  cg_next[self],
+                                                                          cg_ok     |->  cg_ok[self],
+                                                                          cg_seen   |->  cg_seen[self],
+                                                                          cg_t      |->  cg_t[self],
+                                                                          cg_mclass |->  cg_mclass[self],
+                                                                          cg_mfree  |->  cg_mfree[self],
+                                                                          cg_cclass |->  cg_cclass[self],
+                                                                          cg_cop    |->  cg_cop[self] ] >>
+                                                                      \o stack[self]]
+                              /\ cg_prev' = [cg_prev EXCEPT ![self] = TreeW(0, FALSE, 0)]
+                              /\ cg_done' = [cg_done EXCEPT ![self] = FALSE]
+                              /\ cg_fetched' = [cg_fetched EXCEPT ![self] = 0]
+                              /\ cg_h' = [cg_h EXCEPT ![self] = 0]
+                              /\ cg_v' = [cg_v EXCEPT ![self] = 0]
+                              /\ cg_next' = [cg_next EXCEPT ![self] = <<>>]
+                              /\ cg_ok' = [cg_ok EXCEPT ![self] = FALSE]
+                              /\ cg_seen' = [cg_seen EXCEPT ![self] = TreeW(0, FALSE, 0)]
+                              /\ pc' = [pc EXCEPT ![self] = "cg_load"]
+                              /\ UNCHANGED << rv, ac_id, ac_mclass, ac_mfree, 
+                                              ac_cclass, ac_cop, ac_i, ac_done >>
+                         ELSE /\ IF ~ac_done[self]
+                                    THEN /\ rv' = [rv EXCEPT ![self] = [ok |-> FALSE, err |-> "mem"]]
+                                    ELSE /\ TRUE
+                                         /\ rv' = rv
+                              /\ pc' = [pc EXCEPT ![self] = Head(stack[self]).pc]
+                              /\ ac_i' = [ac_i EXCEPT ![self] = Head(stack[self]).ac_i]
+                              /\ ac_done' = [ac_done EXCEPT ![self] = Head(stack[self]).ac_done]
+                              /\ ac_id' = [ac_id EXCEPT ![self] = Head(stack[self]).ac_id]
+                              /\ ac_mclass' = [ac_mclass EXCEPT ![self] = Head(stack[self]).ac_mclass]
+                              /\ ac_mfree' = [ac_mfree EXCEPT ![self] = Head(stack[self]).ac_mfree]
+                              /\ ac_cclass' = [ac_cclass EXCEPT ![self] = Head(stack[self]).ac_cclass]
+                              /\ ac_cop' = [ac_cop EXCEPT ![self] = Head(stack[self]).ac_cop]
+                              /\ stack' = [stack EXCEPT ![self] = Tail(stack[self])]
+                              /\ UNCHANGED << cg_t, cg_mclass, cg_mfree, 
+                                              cg_cclass, cg_cop, cg_prev, 
+                                              cg_done, cg_fetched, cg_h, cg_v, 
+                                              cg_next, cg_ok, cg_seen >>
+                   /\ UNCHANGED << mem, held, results, inflight, panicked, 
+                                   lastop, dp_why, tu_loc, tu_fn, tu_arg, 
+                                   tu_prev, tu_next, tu_done, tu_ok, tu_seen, 
+                                   lg_row, lg_order, lg_tree, lg_off, lg_j, 
+                                   lg_i, lg_h, lg_found, lg_frame, lg_n, ca_h0, 
+                                   ca_num, ca_cur, ca_new, ca_i, ca_ok, 
+                                   ca_seen, ca_j, sf_h, sf_start, sf_order, 
+                                   sf_i, sf_r, sf_found, sf_off, sf_nrows, 
+                                   sf_c, sf_k, sf_v, sf_zero, sf_ok, sf_seen, 
+                                   sf_u, tg_h, tg_off, tg_order, tg_exp, tg_ok, 
+                                   tg_i, tg_n, tg_seen, tg_u, tg_r0, la_frame, 
+                                   la_order, la_h, ps_frame, ps_order, 
+                                   lp_frame, lp_order, lp_h, lp_old, lp_ok, 
+                                   lp_seen, lp_spin, lp_v, tp_t, tp_n, tu2_t, 
+                                   tu2_free, tu2_class, gl_order, gl_class, 
+                                   gl_local, gl_frame, gl_sync, gl_row, gl_res, 
+                                   gl_min, gl_got, sg_i, sg_class, sg_order, 
+                                   sg_frame, sg_c, rs_i, rs_order, rs_class, 
+                                   rs_local, rs_reserved, rs_free, rs_tc, 
+                                   rs_frame, rs_old, sb_n, sb_start, sb_offset, 
+                                   sb_len, sb_mode, sb_order, sb_class, 
+                                   sb_local, sb_i, sb_idx, sb_t, sb_p, sb_best, 
+                                   sb_done, sb_k, sl_class, sl_local, sl_order, 
+                                   sl_frame, sl_i, sl_tc, sl_j, sl_found, 
+                                   sl_row, sl_jj, dl_class, dl_local, dl_order, 
+                                   dl_frame, dl_i, dl_tc, dl_j, dl_found, 
+                                   dl_new, dl_old, dl_jj, dl_oldclass, 
+                                   ag_order, ag_class, ag_local, ag_frame, 
+                                   ag_len, ag_start, ag_near, ag_done, 
+                                   ap_frame, ap_order, ap_class, ap_local, 
+                                   ad_c, ad_k, ad_old, pcx, cur, blk >>
+
+ac_search_r(self) == /\ pc[self] = "ac_search_r"
+                     /\ IF rv[self].ok
+                           THEN /\ ac_done' = [ac_done EXCEPT ![self] = TRUE]
+                                /\ ac_i' = ac_i
+                           ELSE /\ ac_i' = [ac_i EXCEPT ![self] = ac_i[self] + 1]
+                                /\ UNCHANGED ac_done
+                     /\ pc' = [pc EXCEPT ![self] = "ac_search"]
+                     /\ UNCHANGED << mem, held, results, inflight, rv, 
+                                     panicked, lastop, stack, dp_why, tu_loc, 
+                                     tu_fn, tu_arg, tu_prev, tu_next, tu_done, 
+                                     tu_ok, tu_seen, lg_row, lg_order, lg_tree, 
+                                     lg_off, lg_j, lg_i, lg_h, lg_found, 
+                                     lg_frame, lg_n, ca_h0, ca_num, ca_cur, 
+                                     ca_new, ca_i, ca_ok, ca_seen, ca_j, sf_h, 
+                                     sf_start, sf_order, sf_i, sf_r, sf_found, 
+                                     sf_off, sf_nrows, sf_c, sf_k, sf_v, 
+                                     sf_zero, sf_ok, sf_seen, sf_u, tg_h, 
+                                     tg_off, tg_order, tg_exp, tg_ok, tg_i, 
+                                     tg_n, tg_seen, tg_u, tg_r0, la_frame, 
+                                     la_order, la_h, ps_frame, ps_order, 
+                                     lp_frame, lp_order, lp_h, lp_old, lp_ok, 
+                                     lp_seen, lp_spin, lp_v, tp_t, tp_n, tu2_t, 
+                                     tu2_free, tu2_class, gl_order, gl_class, 
+                                     gl_local, gl_frame, gl_sync, gl_row, 
+                                     gl_res, gl_min, gl_got, sg_i, sg_class, 
+                                     sg_order, sg_frame, sg_c, rs_i, rs_order, 
+                                     rs_class, rs_local, rs_reserved, rs_free, 
+                                     rs_tc, rs_frame, rs_old, sb_n, sb_start, 
+                                     sb_offset, sb_len, sb_mode, sb_order, 
+                                     sb_class, sb_local, sb_i, sb_idx, sb_t, 
+                                     sb_p, sb_best, sb_done, sb_k, sl_class, 
+                                     sl_local, sl_order, sl_frame, sl_i, sl_tc, 
+                                     sl_j, sl_found, sl_row, sl_jj, dl_class, 
+                                     dl_local, dl_order, dl_frame, dl_i, dl_tc, 
+                                     dl_j, dl_found, dl_new, dl_old, dl_jj, 
+                                     dl_oldclass, ag_order, ag_class, ag_local, 
+                                     ag_frame, ag_len, ag_start, ag_near, 
+                                     ag_done, ap_frame, ap_order, ap_class, 
+                                     ap_local, ad_c, ad_k, ad_old, cg_t, 
+                                     cg_mclass, cg_mfree, cg_cclass, cg_cop, 
+                                     cg_prev, cg_done, cg_fetched, cg_h, cg_v, 
+                                     cg_next, cg_ok, cg_seen, ac_id, ac_mclass, 
+                                     ac_mfree, ac_cclass, ac_cop, pcx, cur, 
+                                     blk >>
+
+ac_id_r(self) == /\ pc[self] = "ac_id_r"
+                 /\ pc' = [pc EXCEPT ![self] = Head(stack[self]).pc]
+                 /\ ac_i' = [ac_i EXCEPT ![self] = Head(stack[self]).ac_i]
+                 /\ ac_done' = [ac_done EXCEPT ![self] = Head(stack[self]).ac_done]
+                 /\ ac_id' = [ac_id EXCEPT ![self] = Head(stack[self]).ac_id]
+                 /\ ac_mclass' = [ac_mclass EXCEPT ![self] = Head(stack[self]).ac_mclass]
+                 /\ ac_mfree' = [ac_mfree EXCEPT ![self] = Head(stack[self]).ac_mfree]
+                 /\ ac_cclass' = [ac_cclass EXCEPT ![self] = Head(stack[self]).ac_cclass]
+                 /\ ac_cop' = [ac_cop EXCEPT ![self] = Head(stack[self]).ac_cop]
+                 /\ stack' = [stack EXCEPT ![self] = Tail(stack[self])]
+                 /\ UNCHANGED << mem, held, results, inflight, rv, panicked, 
+                                 lastop, dp_why, tu_loc, tu_fn, tu_arg, 
+                                 tu_prev, tu_next, tu_done, tu_ok, tu_seen, 
+                                 lg_row, lg_order, lg_tree, lg_off, lg_j, lg_i, 
+                                 lg_h, lg_found, lg_frame, lg_n, ca_h0, ca_num, 
+                                 ca_cur, ca_new, ca_i, ca_ok, ca_seen, ca_j, 
+                                 sf_h, sf_start, sf_order, sf_i, sf_r, 
+                                 sf_found, sf_off, sf_nrows, sf_c, sf_k, sf_v, 
+                                 sf_zero, sf_ok, sf_seen, sf_u, tg_h, tg_off, 
+                                 tg_order, tg_exp, tg_ok, tg_i, tg_n, tg_seen, 
+                                 tg_u, tg_r0, la_frame, la_order, la_h, 
+                                 ps_frame, ps_order, lp_frame, lp_order, lp_h, 
+                                 lp_old, lp_ok, lp_seen, lp_spin, lp_v, tp_t, 
+                                 tp_n, tu2_t, tu2_free, tu2_class, gl_order, 
+                                 gl_class, gl_local, gl_frame, gl_sync, gl_row, 
+                                 gl_res, gl_min, gl_got, sg_i, sg_class, 
+                                 sg_order, sg_frame, sg_c, rs_i, rs_order, 
+                                 rs_class, rs_local, rs_reserved, rs_free, 
+                                 rs_tc, rs_frame, rs_old, sb_n, sb_start, 
+                                 sb_offset, sb_len, sb_mode, sb_order, 
+                                 sb_class, sb_local, sb_i, sb_idx, sb_t, sb_p, 
+                                 sb_best, sb_done, sb_k, sl_class, sl_local, 
+                                 sl_order, sl_frame, sl_i, sl_tc, sl_j, 
+                                 sl_found, sl_row, sl_jj, dl_class, dl_local, 
+                                 dl_order, dl_frame, dl_i, dl_tc, dl_j, 
+                                 dl_found, dl_new, dl_old, dl_jj, dl_oldclass, 
+                                 ag_order, ag_class, ag_local, ag_frame, 
+                                 ag_len, ag_start, ag_near, ag_done, ap_frame, 
+                                 ap_order, ap_class, ap_local, ad_c, ad_k, 
+                                 ad_old, cg_t, cg_mclass, cg_mfree, cg_cclass, 
+                                 cg_cop, cg_prev, cg_done, cg_fetched, cg_h, 
+                                 cg_v, cg_next, cg_ok, cg_seen, pcx, cur, blk >>
+
+api_change(self) == ac_begin(self) \/ ac_search(self) \/ ac_search_r(self)
+                       \/ ac_id_r(self)
 
 t_loop(self) == /\ pc[self] = "t_loop"
                 /\ IF pcx[self] <= Len(Prog[self])
@@ -7951,7 +9093,10 @@ t_loop(self) == /\ pc[self] = "t_loop"
                                       /\ pc' = [pc EXCEPT ![self] = "ag_begin"]
                                       /\ UNCHANGED << held, ap_frame, ap_order, 
                                                       ap_class, ap_local, ad_c, 
-                                                      ad_k, ad_old, blk >>
+                                                      ad_k, ad_old, ac_id, 
+                                                      ac_mclass, ac_mfree, 
+                                                      ac_cclass, ac_cop, ac_i, 
+                                                      ac_done, blk >>
                                  ELSE /\ IF cur'[self].op = "put"
                                             THEN /\ IF cur'[self].idx <= Len(held[self]) /\ held[self][cur'[self].idx] # Freed
                                                        THEN /\ blk' = [blk EXCEPT ![self] = held[self][cur'[self].idx]]
@@ -7980,7 +9125,12 @@ t_loop(self) == /\ pc[self] = "t_loop"
                                                                             ap_local, 
                                                                             blk >>
                                                  /\ UNCHANGED << ad_c, ad_k, 
-                                                                 ad_old >>
+                                                                 ad_old, ac_id, 
+                                                                 ac_mclass, 
+                                                                 ac_mfree, 
+                                                                 ac_cclass, 
+                                                                 ac_cop, ac_i, 
+                                                                 ac_done >>
                                             ELSE /\ IF cur'[self].op = "putraw"
                                                        THEN /\ inflight' = [inflight EXCEPT ![self] = [op |-> "put", frame |-> cur'[self].frame, order |-> cur'[self].order, of |-> Freed]]
                                                             /\ /\ ap_class' = [ap_class EXCEPT ![self] = cur'[self].class]
@@ -7997,25 +9147,62 @@ t_loop(self) == /\ pc[self] = "t_loop"
                                                             /\ pc' = [pc EXCEPT ![self] = "ap_begin"]
                                                             /\ UNCHANGED << ad_c, 
                                                                             ad_k, 
-                                                                            ad_old >>
-                                                       ELSE /\ IF cur'[self].op = "drain"
+                                                                            ad_old, 
+                                                                            ac_id, 
+                                                                            ac_mclass, 
+                                                                            ac_mfree, 
+                                                                            ac_cclass, 
+                                                                            ac_cop, 
+                                                                            ac_i, 
+                                                                            ac_done >>
+                                                       ELSE /\ IF cur'[self].op = "change"
                                                                   THEN /\ inflight' = [inflight EXCEPT ![self] = cur'[self]]
-                                                                       /\ stack' = [stack EXCEPT ![self] = << [ procedure |->  "api_drain",
-                                                                                                                pc        |->  "t_drain_r",
-                                                                                                                ad_c      |->  ad_c[self],
-                                                                                                                ad_k      |->  ad_k[self],
-                                                                                                                ad_old    |->  ad_old[self] ] >>
-                                                                                                            \o stack[self]]
-                                                                       /\ ad_c' = [ad_c EXCEPT ![self] = 0]
-                                                                       /\ ad_k' = [ad_k EXCEPT ![self] = 0]
-                                                                       /\ ad_old' = [ad_old EXCEPT ![self] = SlotNone]
-                                                                       /\ pc' = [pc EXCEPT ![self] = "ad_begin"]
-                                                                  ELSE /\ pc' = [pc EXCEPT ![self] = "t_next"]
-                                                                       /\ UNCHANGED << inflight, 
-                                                                                       stack, 
-                                                                                       ad_c, 
+                                                                       /\ /\ ac_cclass' = [ac_cclass EXCEPT ![self] = cur'[self].cclass]
+                                                                          /\ ac_cop' = [ac_cop EXCEPT ![self] = cur'[self].cop]
+                                                                          /\ ac_id' = [ac_id EXCEPT ![self] = cur'[self].id]
+                                                                          /\ ac_mclass' = [ac_mclass EXCEPT ![self] = cur'[self].mclass]
+                                                                          /\ ac_mfree' = [ac_mfree EXCEPT ![self] = cur'[self].mfree]
+                                                                          /\ stack' = [stack EXCEPT ![self] = << [ procedure |->  "api_change",
+                                                                                                                   pc        |->  "t_change_r",
+                                                                                                                   ac_i      |->  ac_i[self],
+                                                                                                                   ac_done   |->  ac_done[self],
+                                                                                                                   ac_id     |->  ac_id[self],
+                                                                                                                   ac_mclass |->  ac_mclass[self],
+                                                                                                                   ac_mfree  |->  ac_mfree[self],
+                                                                                                                   ac_cclass |->  ac_cclass[self],
+                                                                                                                   ac_cop    |->  ac_cop[self] ] >>
+                                                                                                               \o stack[self]]
+                                                                       /\ ac_i' = [ac_i EXCEPT ![self] = 0]
+                                                                       /\ ac_done' = [ac_done EXCEPT ![self] = FALSE]
+                                                                       /\ pc' = [pc EXCEPT ![self] = "ac_begin"]
+                                                                       /\ UNCHANGED << ad_c, 
                                                                                        ad_k, 
                                                                                        ad_old >>
+                                                                  ELSE /\ IF cur'[self].op = "drain"
+                                                                             THEN /\ inflight' = [inflight EXCEPT ![self] = cur'[self]]
+                                                                                  /\ stack' = [stack EXCEPT ![self] = << [ procedure |->  "api_drain",
+                                                                                                                           pc        |->  "t_drain_r",
+                                                                                                                           ad_c      |->  ad_c[self],
+                                                                                                                           ad_k      |->  ad_k[self],
+                                                                                                                           ad_old    |->  ad_old[self] ] >>
+                                                                                                                       \o stack[self]]
+                                                                                  /\ ad_c' = [ad_c EXCEPT ![self] = 0]
+                                                                                  /\ ad_k' = [ad_k EXCEPT ![self] = 0]
+                                                                                  /\ ad_old' = [ad_old EXCEPT ![self] = SlotNone]
+                                                                                  /\ pc' = [pc EXCEPT ![self] = "ad_begin"]
+                                                                             ELSE /\ pc' = [pc EXCEPT ![self] = "t_next"]
+                                                                                  /\ UNCHANGED << inflight, 
+                                                                                                  stack, 
+                                                                                                  ad_c, 
+                                                                                                  ad_k, 
+                                                                                                  ad_old >>
+                                                                       /\ UNCHANGED << ac_id, 
+                                                                                       ac_mclass, 
+                                                                                       ac_mfree, 
+                                                                                       ac_cclass, 
+                                                                                       ac_cop, 
+                                                                                       ac_i, 
+                                                                                       ac_done >>
                                                             /\ UNCHANGED << ap_frame, 
                                                                             ap_order, 
                                                                             ap_class, 
@@ -8030,8 +9217,9 @@ t_loop(self) == /\ pc[self] = "t_loop"
                                            ag_class, ag_local, ag_frame, 
                                            ag_len, ag_start, ag_near, ag_done, 
                                            ap_frame, ap_order, ap_class, 
-                                           ap_local, ad_c, ad_k, ad_old, cur, 
-                                           blk >>
+                                           ap_local, ad_c, ad_k, ad_old, ac_id, 
+                                           ac_mclass, ac_mfree, ac_cclass, 
+                                           ac_cop, ac_i, ac_done, cur, blk >>
                 /\ UNCHANGED << mem, results, rv, panicked, lastop, dp_why, 
                                 tu_loc, tu_fn, tu_arg, tu_prev, tu_next, 
                                 tu_done, tu_ok, tu_seen, lg_row, lg_order, 
@@ -8057,7 +9245,10 @@ t_loop(self) == /\ pc[self] = "t_loop"
                                 sl_i, sl_tc, sl_j, sl_found, sl_row, sl_jj, 
                                 dl_class, dl_local, dl_order, dl_frame, dl_i, 
                                 dl_tc, dl_j, dl_found, dl_new, dl_old, dl_jj, 
-                                dl_oldclass, pcx >>
+                                dl_oldclass, cg_t, cg_mclass, cg_mfree, 
+                                cg_cclass, cg_cop, cg_prev, cg_done, 
+                                cg_fetched, cg_h, cg_v, cg_next, cg_ok, 
+                                cg_seen, pcx >>
 
 t_next(self) == /\ pc[self] = "t_next"
                 /\ pcx' = [pcx EXCEPT ![self] = pcx[self] + 1]
@@ -8090,7 +9281,11 @@ t_next(self) == /\ pc[self] = "t_next"
                                 dl_oldclass, ag_order, ag_class, ag_local, 
                                 ag_frame, ag_len, ag_start, ag_near, ag_done, 
                                 ap_frame, ap_order, ap_class, ap_local, ad_c, 
-                                ad_k, ad_old, cur, blk >>
+                                ad_k, ad_old, cg_t, cg_mclass, cg_mfree, 
+                                cg_cclass, cg_cop, cg_prev, cg_done, 
+                                cg_fetched, cg_h, cg_v, cg_next, cg_ok, 
+                                cg_seen, ac_id, ac_mclass, ac_mfree, ac_cclass, 
+                                ac_cop, ac_i, ac_done, cur, blk >>
 
 t_get_r(self) == /\ pc[self] = "t_get_r"
                  /\ results' = [results EXCEPT ![self] = Append(results[self], [op |-> "get", ok |-> rv[self].ok,
@@ -8130,7 +9325,12 @@ t_get_r(self) == /\ pc[self] = "t_get_r"
                                  dl_oldclass, ag_order, ag_class, ag_local, 
                                  ag_frame, ag_len, ag_start, ag_near, ag_done, 
                                  ap_frame, ap_order, ap_class, ap_local, ad_c, 
-                                 ad_k, ad_old, pcx, cur, blk >>
+                                 ad_k, ad_old, cg_t, cg_mclass, cg_mfree, 
+                                 cg_cclass, cg_cop, cg_prev, cg_done, 
+                                 cg_fetched, cg_h, cg_v, cg_next, cg_ok, 
+                                 cg_seen, ac_id, ac_mclass, ac_mfree, 
+                                 ac_cclass, ac_cop, ac_i, ac_done, pcx, cur, 
+                                 blk >>
 
 t_put_r(self) == /\ pc[self] = "t_put_r"
                  /\ results' = [results EXCEPT ![self] = Append(results[self], [op |-> "put", ok |-> rv[self].ok, frame |-> inflight[self].frame,
@@ -8166,7 +9366,11 @@ t_put_r(self) == /\ pc[self] = "t_put_r"
                                  ag_order, ag_class, ag_local, ag_frame, 
                                  ag_len, ag_start, ag_near, ag_done, ap_frame, 
                                  ap_order, ap_class, ap_local, ad_c, ad_k, 
-                                 ad_old, pcx, cur, blk >>
+                                 ad_old, cg_t, cg_mclass, cg_mfree, cg_cclass, 
+                                 cg_cop, cg_prev, cg_done, cg_fetched, cg_h, 
+                                 cg_v, cg_next, cg_ok, cg_seen, ac_id, 
+                                 ac_mclass, ac_mfree, ac_cclass, ac_cop, ac_i, 
+                                 ac_done, pcx, cur, blk >>
 
 t_putraw_r(self) == /\ pc[self] = "t_putraw_r"
                     /\ results' = [results EXCEPT ![self] = Append(results[self], [op |-> "put", ok |-> rv[self].ok, frame |-> cur[self].frame,
@@ -8204,7 +9408,54 @@ t_putraw_r(self) == /\ pc[self] = "t_putraw_r"
                                     ag_class, ag_local, ag_frame, ag_len, 
                                     ag_start, ag_near, ag_done, ap_frame, 
                                     ap_order, ap_class, ap_local, ad_c, ad_k, 
-                                    ad_old, pcx, cur, blk >>
+                                    ad_old, cg_t, cg_mclass, cg_mfree, 
+                                    cg_cclass, cg_cop, cg_prev, cg_done, 
+                                    cg_fetched, cg_h, cg_v, cg_next, cg_ok, 
+                                    cg_seen, ac_id, ac_mclass, ac_mfree, 
+                                    ac_cclass, ac_cop, ac_i, ac_done, pcx, cur, 
+                                    blk >>
+
+t_change_r(self) == /\ pc[self] = "t_change_r"
+                    /\ results' = [results EXCEPT ![self] = Append(results[self], [op |-> "change", ok |-> rv[self].ok, frame |-> -1, class |-> -1, err |-> rv[self].err])]
+                    /\ inflight' = [inflight EXCEPT ![self] = <<>>]
+                    /\ pc' = [pc EXCEPT ![self] = "t_next"]
+                    /\ UNCHANGED << mem, held, rv, panicked, lastop, stack, 
+                                    dp_why, tu_loc, tu_fn, tu_arg, tu_prev, 
+                                    tu_next, tu_done, tu_ok, tu_seen, lg_row, 
+                                    lg_order, lg_tree, lg_off, lg_j, lg_i, 
+                                    lg_h, lg_found, lg_frame, lg_n, ca_h0, 
+                                    ca_num, ca_cur, ca_new, ca_i, ca_ok, 
+                                    ca_seen, ca_j, sf_h, sf_start, sf_order, 
+                                    sf_i, sf_r, sf_found, sf_off, sf_nrows, 
+                                    sf_c, sf_k, sf_v, sf_zero, sf_ok, sf_seen, 
+                                    sf_u, tg_h, tg_off, tg_order, tg_exp, 
+                                    tg_ok, tg_i, tg_n, tg_seen, tg_u, tg_r0, 
+                                    la_frame, la_order, la_h, ps_frame, 
+                                    ps_order, lp_frame, lp_order, lp_h, lp_old, 
+                                    lp_ok, lp_seen, lp_spin, lp_v, tp_t, tp_n, 
+                                    tu2_t, tu2_free, tu2_class, gl_order, 
+                                    gl_class, gl_local, gl_frame, gl_sync, 
+                                    gl_row, gl_res, gl_min, gl_got, sg_i, 
+                                    sg_class, sg_order, sg_frame, sg_c, rs_i, 
+                                    rs_order, rs_class, rs_local, rs_reserved, 
+                                    rs_free, rs_tc, rs_frame, rs_old, sb_n, 
+                                    sb_start, sb_offset, sb_len, sb_mode, 
+                                    sb_order, sb_class, sb_local, sb_i, sb_idx, 
+                                    sb_t, sb_p, sb_best, sb_done, sb_k, 
+                                    sl_class, sl_local, sl_order, sl_frame, 
+                                    sl_i, sl_tc, sl_j, sl_found, sl_row, sl_jj, 
+                                    dl_class, dl_local, dl_order, dl_frame, 
+                                    dl_i, dl_tc, dl_j, dl_found, dl_new, 
+                                    dl_old, dl_jj, dl_oldclass, ag_order, 
+                                    ag_class, ag_local, ag_frame, ag_len, 
+                                    ag_start, ag_near, ag_done, ap_frame, 
+                                    ap_order, ap_class, ap_local, ad_c, ad_k, 
+                                    ad_old, cg_t, cg_mclass, cg_mfree, 
+                                    cg_cclass, cg_cop, cg_prev, cg_done, 
+                                    cg_fetched, cg_h, cg_v, cg_next, cg_ok, 
+                                    cg_seen, ac_id, ac_mclass, ac_mfree, 
+                                    ac_cclass, ac_cop, ac_i, ac_done, pcx, cur, 
+                                    blk >>
 
 t_drain_r(self) == /\ pc[self] = "t_drain_r"
                    /\ results' = [results EXCEPT ![self] = Append(results[self], [op |-> "drain", ok |-> TRUE, frame |-> -1, class |-> -1, err |-> ""])]
@@ -8239,11 +9490,15 @@ t_drain_r(self) == /\ pc[self] = "t_drain_r"
                                    dl_jj, dl_oldclass, ag_order, ag_class, 
                                    ag_local, ag_frame, ag_len, ag_start, 
                                    ag_near, ag_done, ap_frame, ap_order, 
-                                   ap_class, ap_local, ad_c, ad_k, ad_old, pcx, 
-                                   cur, blk >>
+                                   ap_class, ap_local, ad_c, ad_k, ad_old, 
+                                   cg_t, cg_mclass, cg_mfree, cg_cclass, 
+                                   cg_cop, cg_prev, cg_done, cg_fetched, cg_h, 
+                                   cg_v, cg_next, cg_ok, cg_seen, ac_id, 
+                                   ac_mclass, ac_mfree, ac_cclass, ac_cop, 
+                                   ac_i, ac_done, pcx, cur, blk >>
 
 T(self) == t_loop(self) \/ t_next(self) \/ t_get_r(self) \/ t_put_r(self)
-              \/ t_putraw_r(self) \/ t_drain_r(self)
+              \/ t_putraw_r(self) \/ t_change_r(self) \/ t_drain_r(self)
 
 (* Allow infinite stuttering to prevent deadlock on termination. *)
 Terminating == /\ \A self \in ProcSet: pc[self] = "Done"
@@ -8259,7 +9514,8 @@ Next == (\E self \in ProcSet:  \/ do_panic(self) \/ try_update(self)
                                \/ reserve_or_steal(self)
                                \/ search_best(self) \/ steal_local(self)
                                \/ demote_local(self) \/ api_get(self)
-                               \/ api_put(self) \/ api_drain(self))
+                               \/ api_put(self) \/ api_drain(self)
+                               \/ change_at(self) \/ api_change(self))
            \/ (\E self \in Threads: T(self))
            \/ Terminating
 
@@ -8336,6 +9592,6 @@ ThreadStep(self) ==
   \/ toggle(self) \/ lower_get_at(self) \/ put_small(self) \/ lower_put(self) \/ trees_put(self)
   \/ trees_unreserve(self) \/ get_local(self) \/ steal_global(self) \/ reserve_or_steal(self)
   \/ search_best(self) \/ steal_local(self) \/ demote_local(self) \/ api_get(self) \/ api_put(self)
-  \/ api_drain(self) \/ T(self)
+  \/ api_drain(self) \/ change_at(self) \/ api_change(self) \/ T(self)
 
 =============================================================================
